@@ -15,6 +15,20 @@ Round 4 added three streams (design_notes/C17.md, "Round 4 hardening"):
                 judged as the same call on freshly built objects (`case: "history"`);
   * large     — `generate_large`: sizes on both sides of every new integer constant of the anchored source
                 in every size dimension, judged by a vectorised oracle alone (`big: true`).
+
+Round 5/6 (design_notes/C17.md, "Round 5/6 hardening"; DESIGN §14 classes):
+  * R5-A  `_decades_ext` / `_near_ties` / `_relocate_directions`: world magnitudes 2^-45..2^45, ONE ingredient at
+          another magnitude (tiny radial minimum, world far from the origin), near-ties 2^-18..2^-40, radii 2^-1..2^-60
+          in every direction;
+  * R5-B  `_history_own`: observe -> overwrite every returned / accepted array in place -> rebuild -> observe (x3),
+          user functions editing their argument in place (`fscrib`);
+  * R5-C  `_layouts`: layouts / containers / dtypes of every array-taking entry point (`lay` of a grid spec, `ret`
+          = the form of the user function's result, `pre` = is_transformed=True);
+  * R5-D  `_history_conf`: `remove_projected_centre` and the per-class radial minimum changed between calls, by
+          item assignment or `conf.instance.push` (`rpc`, `rmin_via`, `projline` control; model op `c17.projline`);
+  * R5-E  `*_xdec` / `_relocate_extreme` (2^+-64..2^+-990), `_always_large` (beyond 2^16 in every run);
+  * R5-F  `_options_pairwise`: constructor options (checked with inspect.signature) x call options pairwise, extra
+          (falsy) keyword arguments of the user function (`xa`).
 """
 from __future__ import annotations
 
@@ -60,6 +74,96 @@ def _conv(vals, dtype):
     if dtype == "ndarray":
         return np.array(f, dtype="float64")
     return f
+
+
+def _layout(a, how, junk=None):
+    """round 5/6 (R5-C): the SAME values in another memory layout / container.  `how`: None | "C" | "F"
+    (Fortran order) | "T" (a transposed view: the last axis is the slowest in memory) | "strided" (a
+    non-contiguous view into a larger buffer filled with junk, every axis strided) | "rev" (negative strides) |
+    "readonly" | "list" (nested python lists) | "int" (integer dtype, for masks)"""
+    a = np.asarray(a)
+    if how in (None, "C", "nd"):
+        return np.ascontiguousarray(a)
+    if how == "F":
+        return np.asfortranarray(a)
+    if how == "T":
+        if a.ndim < 2:
+            return _layout(a, "strided", junk)
+        return np.moveaxis(np.ascontiguousarray(np.moveaxis(a, -1, 0)), 0, -1)
+    if how == "strided":
+        if a.ndim == 0:
+            return a
+        fill = junk if junk is not None else (True if a.dtype == bool else 9.75)
+        big = np.full(tuple(2 * n + 1 for n in a.shape), fill, dtype=a.dtype)
+        sl = tuple(slice(1, None, 2) for _ in a.shape)
+        big[sl] = a
+        return big[sl]
+    if how == "rev":
+        if a.ndim == 0:
+            return a
+        return np.ascontiguousarray(a[::-1])[::-1]
+    if how == "readonly":
+        c = np.array(a)
+        c.setflags(write=False)
+        return c
+    if how == "list":
+        return a.tolist()
+    if how == "int":
+        return a.astype("int64")
+    if how == "int_list":
+        return a.astype("int64").tolist()
+    raise ValueError(how)
+
+
+def _eff_func(fn, mult, add):
+    """round 5/6 (R5-F): the user function with its extra arguments folded in: mult * phi + add (before the
+    mode is applied).  Exact on dyadic coefficients."""
+    mult, add = Fraction(mult), Fraction(add)
+    if mult == 1 and add == 0:
+        return fn
+    out = dict(fn)
+    for key in ("cy", "cx"):
+        if key in fn:
+            c = [Fraction(v) for v in fn[key]] + [Fraction(0)] * (6 - len(fn[key]))
+            out[key] = qlist([mult * c[0] + add] + [mult * v for v in c[1:]])
+    return out
+
+
+SCRIBBLE = -7777.25
+
+
+def _scribble_array(a):
+    """overwrite an ndarray in place (ownership histories); read-only buffers are left alone"""
+    if not isinstance(a, np.ndarray) or a.size == 0:
+        return 0
+    try:
+        if a.dtype == bool:
+            a[...] = ~a
+        else:
+            a[...] = SCRIBBLE
+        return 1
+    except (ValueError, TypeError):
+        return 0
+
+
+def _scribble(x, depth=0):
+    """overwrite, in place, every array reachable from a value the API returned or accepted: an ndarray, a
+    structure (its stored array, its mask, a vector field's grid), a list of them"""
+    if x is None or depth > 3:
+        return 0
+    if isinstance(x, np.ndarray):
+        return _scribble_array(x)
+    if isinstance(x, (list, tuple)):
+        return sum(_scribble(v, depth + 1) for v in x)
+    n = 0
+    for attr in ("grid", "mask"):
+        sub = x.__dict__.get(attr) if hasattr(x, "__dict__") else None
+        if sub is not None and sub is not x:
+            n += _scribble(sub, depth + 1)
+    arr = getattr(x, "_array", None)
+    if isinstance(arr, np.ndarray):
+        n += _scribble_array(arr)
+    return n
 
 
 def _phi(c, y, x):
@@ -130,60 +234,116 @@ def _mocks(aa):
             self.seen = []
             self.fault = None  # "raise": the next evaluation raises UserFault (history stream)
             self.vec = False  # large cases: evaluate with numpy
+            # round 5/6: the form the function returns its values in (R5-C), whether it edits its argument in
+            # place after evaluating (R5-B), what extra arguments it received (R5-F)
+            self.ret = None
+            self.ret_mask = None
+            self.fscrib = False
+            self.got = None
+            self.seen_objs = []
             if centre is not None:
                 self.centre = centre
             if angle is not None:
                 self.angle = angle
 
-        def _evaluate(self, grid):
+        def _ret_form(self, v, grid):
+            """the values `v` ((N,) or (N,2) float64) in the form this profile's function returns them in"""
+            r = self.ret
+            if not r or r == "nd":
+                return v
+            if r in ("F", "T", "strided", "readonly", "rev"):
+                return _layout(v, r)
+            if r == "list_elem":
+                return v.tolist()
+            if r in ("float32", "int64"):
+                w = v.astype(r)
+                return w if np.array_equal(w.astype("float64"), v) else v
+            pair = v.ndim == 2
+            if isinstance(grid, aa.Grid2D):
+                mask = grid.mask
+                if r == "native_junk":
+                    m = np.asarray(mask)
+                    out = np.full(m.shape + ((2,) if pair else ()), 9.75)
+                    out[~m] = v
+                    return out
+                cls = aa.Grid2D if pair else aa.Array2D
+                return cls(values=v, mask=mask, store_native=(r == "struct_native"))
+            if r == "native_junk":
+                if self.ret_mask is None:
+                    return v
+                m = np.asarray(self.ret_mask, dtype=bool)
+                if pair:
+                    m = m.reshape(1, -1)
+                out = np.full(m.shape + ((2,) if pair else ()), 9.75)
+                out[~m] = v
+                return out
+            return (aa.Grid2DIrregular if pair else aa.ArrayIrregular)(values=v)
+
+        def _evaluate(self, grid, *args, **kwargs):
             g = _slim_np(grid)
             self.seen.append((type(grid).__name__, g.copy()))
+            self.seen_objs.append(grid)
+            self.got = (tuple(args), dict(kwargs))
             if self.fault == "raise":
                 self.fault = None
                 raise UserFault("user function failed")
-            if self.vec:
+            funcs = self.funcs
+            if args or "mult" in kwargs or "add" in kwargs:
+                # extra arguments of the user function: value = mult * phi + add
+                mult = args[0] if len(args) > 0 else kwargs.get("mult", 1.0)
+                add = args[1] if len(args) > 1 else kwargs.get("add", 0.0)
+                funcs = [_eff_func(fn, Fraction(mult), Fraction(add)) for fn in funcs]
+            try:
+                if self.vec:
+                    if self.is_list:
+                        return [_eval_func_np(fn, g, self.pair) for fn in funcs]
+                    return _eval_func_np(funcs[0], g, self.pair)
+                pts = [(float(a), float(b)) for a, b in g.reshape(-1, 2)]
+
+                def one(fn):
+                    v = _eval_func(fn, pts, float, self.pair)
+                    return self._ret_form(np.array(v, dtype="float64").reshape((-1, 2) if self.pair else (-1,)), grid)
+
                 if self.is_list:
-                    return [_eval_func_np(fn, g, self.pair) for fn in self.funcs]
-                return _eval_func_np(self.funcs[0], g, self.pair)
-            pts = [(float(a), float(b)) for a, b in g.reshape(-1, 2)]
-
-            def one(fn):
-                v = _eval_func(fn, pts, float, self.pair)
-                return np.array(v, dtype="float64").reshape((-1, 2) if self.pair else (-1,))
-
-            if self.is_list:
-                return [one(fn) for fn in self.funcs]
-            return one(self.funcs[0])
+                    return [one(fn) for fn in funcs]
+                return one(funcs[0])
+            finally:
+                if self.fscrib:
+                    # a user function that edits its argument in place (after it has computed its values)
+                    _scribble_array(grid if isinstance(grid, np.ndarray) else getattr(grid, "_array", None))
 
     class MockDispatch(Base):
         @dec.to_array
         def array_from(self, grid, *args, **kwargs):
-            return self._evaluate(grid)
+            return self._evaluate(grid, *args, **kwargs)
 
         @dec.to_grid
         def grid_from(self, grid, *args, **kwargs):
-            return self._evaluate(grid)
+            return self._evaluate(grid, *args, **kwargs)
 
         @dec.to_vector_yx
         def vector_from(self, grid, *args, **kwargs):
-            return self._evaluate(grid)
+            return self._evaluate(grid, *args, **kwargs)
 
         @dec.project_grid
         def projected_from(self, grid, *args, **kwargs):
-            return self._evaluate(grid)
+            return self._evaluate(grid, *args, **kwargs)
 
     class MockNoAttrs(Base):
         """a profile without `centre` / `angle` attributes"""
 
         @dec.project_grid
         def projected_from(self, grid, *args, **kwargs):
-            return self._evaluate(grid)
+            return self._evaluate(grid, *args, **kwargs)
 
     class MockGridRadialMinimum(Base):
         """the class name selects the `radial_minimum` entry of grids.yaml"""
 
         def radial_grid_from(self, grid, **kwargs):
             g = _np(grid)
+            if getattr(self, "robust_radius", False):
+                # a profile whose own radius function does not square (worlds beyond 2^+-500, round 5/6)
+                return np.hypot(g[:, 0], g[:, 1])
             return np.sqrt(np.add(np.square(g[:, 0]), np.square(g[:, 1])))
 
         def transformed_to_reference_frame_grid_from(self, grid, **kwargs):
@@ -198,15 +358,20 @@ def _mocks(aa):
         def relocated_from(self, grid, *args, **kwargs):
             g = _np(grid)
             self.seen.append((type(grid).__name__, g.copy()))
+            self.seen_objs.append(grid)
+            self.got = (tuple(args), dict(kwargs))
             if self.fault == "raise":
                 self.fault = None
                 raise UserFault("user function failed")
+            if self.fscrib:
+                _scribble_array(grid if isinstance(grid, np.ndarray) else getattr(grid, "_array", None))
             return g
 
         # nesting of `transform`: each level forwards its keyword arguments to the next
         @dec.transform
         def level3(self, grid, *args, **kwargs):
             self.seen.append((type(grid).__name__, _np(grid).copy()))
+            self.seen_objs.append(grid)
             self.flag = kwargs.get("is_transformed")
             if self.fault == "raise":
                 self.fault = None
@@ -225,21 +390,26 @@ def _mocks(aa):
         # object, in any order)
         @dec.to_array
         def array_from(self, grid, *args, **kwargs):
-            return self._evaluate(grid)
+            return self._evaluate(grid, *args, **kwargs)
 
         @dec.to_grid
         def grid_from(self, grid, *args, **kwargs):
-            return self._evaluate(grid)
+            return self._evaluate(grid, *args, **kwargs)
 
         @dec.to_vector_yx
         def vector_from(self, grid, *args, **kwargs):
-            return self._evaluate(grid)
+            return self._evaluate(grid, *args, **kwargs)
 
         @dec.project_grid
         def projected_from(self, grid, *args, **kwargs):
-            return self._evaluate(grid)
+            return self._evaluate(grid, *args, **kwargs)
 
-    _MOCKS = {"dispatch": MockDispatch, "noattrs": MockNoAttrs, "radial": MockGridRadialMinimum}
+    class MockGridRadialOther(MockGridRadialMinimum):
+        """round 5/6 (R5-D): a second profile class — the SAME decorated functions (inherited), another class
+        name, hence another entry of the `radial_minimum` configuration table"""
+
+    _MOCKS = {"dispatch": MockDispatch, "noattrs": MockNoAttrs, "radial": MockGridRadialMinimum,
+              "radial_other": MockGridRadialOther}
     return _MOCKS
 
 
@@ -558,6 +728,13 @@ class C17(PropertyCheck):
         yield from self._decades(tier, rng)
         # 8. round 4: histories on real reused objects
         yield from self._history_cases(tier, rng)
+        # 9. round 5/6: sizes beyond 2^16 in every run
+        yield from self._always_large(tier, rng)
+        # 9b. round 5/6: decades extended (edges, extreme magnitudes, one ingredient, near-ties)
+        yield from self._decades_ext(tier, rng)
+        # 10. round 5/6: layout / container variants, options crossed pairwise
+        yield from self._layouts(tier, rng)
+        yield from self._options_pairwise(tier, rng)
 
     # ------------------------------------------------------------------ round 4: decades stream
     @staticmethod
@@ -567,7 +744,7 @@ class C17(PropertyCheck):
     def _scale_grid(self, g, f, k):
         """the grid spec with every length multiplied by the power of two f = 2^k (None: not scalable)"""
         dt = g.get("dtype")
-        if dt in ("int64", "int_list") or (dt == "float32" and k < -30):
+        if dt in ("int64", "int_list") or (dt == "float32" and (k < -30 or k > 60)):
             return None
         g = dict(g)
         if g["type"] == "uniform":
@@ -593,7 +770,7 @@ class C17(PropertyCheck):
         for key in ("cy", "cx"):
             if key in fn:
                 c = list(fn[key]) + ["0"] * (6 - len(fn[key]))
-                fn[key] = ["0"] + c[1:3] + (c[3:6] if k < 0 else ["0", "0", "0"])
+                fn[key] = ["0"] + c[1:3] + (c[3:6] if -40 <= k < 0 else ["0", "0", "0"])
         return fn
 
     def _scale_case(self, case, k):
@@ -617,12 +794,14 @@ class C17(PropertyCheck):
         if g is None:
             return None
         c["grid"] = g
+        if case.get("xa") and "add" in case["xa"]:
+            c["xa"] = {**case["xa"], "add": self._mul(case["xa"]["add"], f)}
         if kind == "dispatch":
             if k != 0:
                 c["funcs"] = [self._no_constant(fn, k) for fn in case["funcs"]]
-        elif kind == "project":
+        elif kind in ("project", "projline"):
             c["centre"] = [self._mul(v, f) for v in case["centre"]]
-            if k != 0:
+            if k != 0 and "func" in case:
                 c["func"] = self._no_constant(case["func"], k)
         elif kind == "relocate":
             c["centre"] = [self._mul(v, f) for v in case["centre"]]
@@ -819,6 +998,8 @@ class C17(PropertyCheck):
             return g["bits"].count("0")
         return len(g["pts"])
 
+    _r56 = True  # round 5/6: relocation calls may say is_transformed=True
+
     def _hist_call(self, rng, gt, what=None, slim_only_ok=True):
         what = what or rng.choice(self.CALLS[gt])
         st = {"act": "call", "what": what}
@@ -831,6 +1012,8 @@ class C17(PropertyCheck):
         elif what == "relocate":
             st["rmin"] = q(rng.choice([Fraction(5, 2), Fraction(1), Fraction(1, 4), Fraction(5, 4), Fraction(2),
                                        Fraction(1, 2 ** 20), Fraction(10), Fraction(0)]))
+            if self._r56 and rng.random() < 0.3:
+                st["pre"] = True  # round 5/6: is_transformed=True, the caller's own grid reaches the decorator
         else:
             st["depth"] = rng.randint(1, 3)
             st["flag"] = rng.random() < 0.3
@@ -1052,6 +1235,108 @@ class C17(PropertyCheck):
                     steps.append(call(what=w))
         return {"tag": f"hist_{fam}_{gt}", "case": "history", "steps": steps}
 
+    def _history_own(self, rng, gt):
+        """R5-B ownership history: observe -> overwrite in place every array the API returned or accepted (the
+        grid's array, its mask, the arrays the constructors were given, the returned containers and their masks, the
+        grid the user function was handed) -> rebuild the SAME world from fresh equal inputs -> observe again; three
+        rounds.  In some, the user function itself edits its argument in place after evaluating."""
+        g0 = self._hist_grid(rng, gt)
+        if rng.random() < 0.4 and gt != "ndarray":
+            keys, lay = rng.choice(self._layout_variants(gt))
+            if not (keys.get("dtype") in ("int64", "float32")):
+                g0 = self._apply_variant({k: v for k, v in g0.items() if k not in ("ctor", "manual_native_input", "store_native", "dtype")},
+                                         keys, lay)
+        native0 = bool(g0.get("store_native"))
+        prof = self._hist_profile(rng, "p0", g0)
+        steps = [{"act": "grid", "to": "g0", "grid": g0}, prof]
+        whats = [w for w in self.CALLS[gt] if not (w == "relocate" and native0)]
+        a = self._hist_call(rng, gt, rng.choice(whats))
+        a["g"], a["p"] = "g0", "p0"
+        if rng.random() < 0.45 and not (a["what"] == "vector" and gt in ("uniform", "irregular")):
+            a["fscrib"] = True
+        if a["what"] in ("array", "grid", "vector") and rng.random() < 0.3:
+            a["ret"] = rng.choice(["strided", "readonly", "struct", "struct_native", "native_junk", "T"])
+            if a["ret"] == "native_junk" and gt == "irregular":
+                a["ret"] = "struct"
+        b = None
+        if not a.get("fscrib") and rng.random() < 0.4:
+            b = self._hist_call(rng, gt, rng.choice(whats))
+            b["g"], b["p"] = "g0", "p0"
+        for rnd in range(3):
+            if rnd > 0:
+                steps.append({"act": "grid", "to": "g0", "grid": g0})
+                if rng.random() < 0.5:
+                    steps.append(dict(prof))
+            if b is not None and rng.random() < 0.5:
+                steps.append(dict(b))
+                steps.append(dict(a))
+            else:
+                steps.append(dict(a))
+                if b is not None:
+                    steps.append(dict(b))
+            if not a.get("fscrib"):
+                steps.append({"act": "scribble", "g": "g0"})
+        return {"tag": f"hist_own_{gt}", "case": "history", "steps": steps}
+
+    def _history_conf(self, rng, gt, push):
+        """R5-D configuration history: the configuration values the anchored code reads
+        (`general.grid.remove_projected_centre`, `grids.radial_minimum.radial_minimum.<class name>`) change BETWEEN
+        calls, on reused and on freshly built objects, by item assignment or by `conf.instance.push`; each call must
+        follow the value in force at call time; `Grid2D.grid_2d_radial_projected_from` with an explicit keyword is
+        the control (it must NOT follow the configuration)."""
+        g0 = self._hist_grid(rng, gt)
+        for key in ("store_native",):
+            g0.pop(key, None) if g0.get("ctor") != "manual" else None
+        prof = self._hist_profile(rng, "p0", g0)
+        if gt == "uniform" and prof["angle"] is None:
+            prof["angle"] = q(rng.choice([0, 30, 45, -60, 200, 17]))
+        steps = [{"act": "grid", "to": "g0", "grid": g0}, prof]
+        if gt == "uniform":
+            # remove_projected_centre under project_grid (+ the direct call as control)
+            a = self._hist_call(rng, gt, "project")
+            a["g"], a["p"] = "g0", "p0"
+            if a["func"]["mode"] == "prefix" and rng.random() < 0.5:
+                a["func"] = {**a["func"], "mode": "index"}
+            vals = rng.choice([[True, False, True], [False, True, False], [True, True, False], [False, True, True]])
+            n_push = 0
+            for i, b in enumerate(vals):
+                via = "push" if push and n_push < 2 and (i == 1 or rng.random() < 0.5) else "item"
+                n_push += via == "push"
+                steps.append({"act": "conf", "rpc": b, "via": via})
+                if rng.random() < 0.35:
+                    steps.append({"act": "grid", "to": "g0", "grid": g0})  # a freshly built equal grid
+                if rng.random() < 0.25:
+                    steps.append(dict(prof))
+                steps.append(dict(a))
+                r = rng.random()
+                if r < 0.5:
+                    steps.append({"act": "call", "what": "projline", "g": "g0", "p": "p0",
+                                  "explicit": rng.choice([True, False])})
+                elif r < 0.7:
+                    steps.append({"act": "call", "what": "projline", "g": "g0", "p": "p0", "explicit_none": True})
+                elif r < 0.8:
+                    steps.append({"act": "call", "what": "projline", "g": "g0", "p": "p0"})
+            return {"tag": "hist_conf_rpc" + ("_push" if push else ""), "case": "history", "steps": steps}
+        # the radial minimum: two profile classes with different configured values, interleaved; values changing
+        # between calls; by item assignment or by a pushed grids.yaml
+        steps.append({**self._hist_profile(rng, "p1", g0), "cls": "other"})
+        rm = [Fraction(5, 2), Fraction(1), Fraction(1, 4), Fraction(5, 4), Fraction(2), Fraction(10), Fraction(0),
+              Fraction(1, 2 ** 20)]
+        n_push = 0
+        names = {"p0": "MockGridRadialMinimum", "p1": "MockGridRadialOther"}
+        for i in range(rng.randint(3, 5)):
+            p_ = rng.choice(["p0", "p1"]) if i else "p0"
+            a_, b_ = rng.sample(rm, 2)
+            via = "push" if push and n_push < 2 and (i == 1 or rng.random() < 0.4) else "item"
+            n_push += via == "push"
+            other = names["p1" if p_ == "p0" else "p0"]
+            st = {"act": "call", "what": "relocate", "g": "g0", "p": p_, "rmin": q(a_), "rmin_via": via,
+                  "rmin_others": {other: q(b_)}}
+            if rng.random() < 0.3:
+                steps.append({"act": "grid", "to": "g0", "grid": g0})
+            steps.append(st)
+        return {"tag": f"hist_conf_rmin_{gt}" + ("_push" if push else ""), "case": "history", "steps": steps}
+
     def _scale_history(self, case, k):
         f = Fraction(2) ** k
         steps = []
@@ -1093,6 +1378,8 @@ class C17(PropertyCheck):
             act = st["act"]
             if act in ("grid", "profile"):
                 have.add(st["to"])
+            elif act == "conf":
+                continue
             elif act in ("derive", "mask_edit"):
                 if st["from"] not in have or st.get("p", st["from"]) not in have:
                     return False
@@ -1104,6 +1391,10 @@ class C17(PropertyCheck):
                 if act in ("call", "fault") and ("g" not in st or "p" not in st):
                     return False
                 calls += act == "call"
+                if act == "scribble" or (act == "call" and st.get("fscrib")):
+                    # every array of the slot has been overwritten (by the harness / by the user function editing
+                    # its argument in place): the slot is dead until it is rebuilt from fresh inputs
+                    have.discard(st["g"])
         return calls >= 1
 
     def _history_cases(self, tier, rng):
@@ -1122,6 +1413,28 @@ class C17(PropertyCheck):
                         c = self._scale_history(c, rng.choice(self.MAGS))
                     if c is not None and self._hist_ok(c["steps"]):
                         yield c
+        # round 5/6: ownership histories (R5-B) and configuration histories (R5-D)
+        reps = 12 if tier == "quick" else 60
+        for rep in range(reps):
+            for gt in ("oned", "uniform", "irregular", "ndarray", "uniform", "irregular", "oned"):
+                c = self._history_own(rng, gt)
+                i += 1
+                if i % 5 == 0:
+                    c = self._scale_history(c, rng.choice(self.MAGS))
+                if c is not None and self._hist_ok(c["steps"]):
+                    yield c
+        reps = 10 if tier == "quick" else 50
+        j = 0
+        for rep in range(reps):
+            for gt in ("uniform", "irregular", "uniform", "ndarray", "uniform"):
+                # `conf.instance.push` re-reads every configuration file (0.1 s): a few per run — the first history
+                # of each kind (so that the first history that meets a stale configuration is one that contains the
+                # push itself, and is a self-contained replay), then every 8th (quick) / 5th (thorough)
+                push = (rep == 0 and j in (0, 1, 3)) or (rep > 0 and j % (8 if tier == "quick" else 5) == 0)
+                j += 1
+                c = self._history_conf(rng, gt, push)
+                if self._hist_ok(c["steps"]):
+                    yield c
 
     def _decades(self, tier, rng):
         """ordinary cases of every family, each at a world magnitude 2^k; k sweeps -40..27 completely (every
@@ -1197,6 +1510,11 @@ class C17(PropertyCheck):
                            Fraction(10), Fraction(0), Fraction(2)])
         centre = (gen.dyadic(rng, -2, 2, 2), gen.dyadic(rng, -2, 2, 2))
         gt = rng.choice(["ndarray", "irregular", "irregular", "uniform"])
+        pre = gt != "uniform" and rng.random() < 0.2
+        if pre:
+            # round 5/6: called with is_transformed=True — the caller's own grid object reaches the decorator and
+            # the profile frame is the grid's frame
+            centre = (Fraction(0), Fraction(0))
         if gt == "uniform":
             h, w = rng.randint(2, 6), rng.randint(2, 6)
             m, mk = gen.random_mask(rng, h, w)
@@ -1244,33 +1562,773 @@ class C17(PropertyCheck):
             if grid["dtype"] == "float32":
                 grid["pts"] = [[q(Fraction(float(np.float32(float(Fraction(a)))))),
                                 q(Fraction(float(np.float32(float(Fraction(b))))))] for a, b in pts]
-        return {"tag": f"relocate_{gt}", "case": "relocate",
-                "grid": grid, "rmin": q(rmin), "centre": [q(centre[0]), q(centre[1])]}
+        c = {"tag": f"relocate_{gt}", "case": "relocate",
+             "grid": grid, "rmin": q(rmin), "centre": [q(centre[0]), q(centre[1])]}
+        if pre:
+            c["pre"] = True
+            c["centre"] = [q(gen.dyadic(rng, -2, 2, 2)), q(gen.dyadic(rng, -2, 2, 2))]  # (must be ignored)
+        return c
+
+    # ------------------------------------------------------------------ round 5/6: always-on large cases
+    def _always_large(self, tier, rng):
+        """R5-E: sizes beyond 2^16 elements in EVERY run (not only when the anchored source gained a constant):
+        one case per size dimension of the property, decorators rotating with the seed; judged by the vectorised
+        statement of the property (`_judge_big`), no model comparison"""
+        kinds = ["array", "grid", "vector"]
+        seed = rng.randrange(1 << 30)
+        sc = lambda: [q(v) for v in gen.scales_pair(rng)]
+        og = lambda: [q(v) for v in gen.origin_pair(rng)]
+        sizes = [2 ** 16 + rng.randint(1, 3000)] + ([2 ** 17 + rng.randint(1, 3000), 46341 + rng.randint(0, 50)]
+                                                     if tier == "thorough" else [])
+        t = 0
+        for n in sizes:
+            k0 = rng.randrange(3)
+            w = int(math.isqrt(n)) + 3
+            h = -(-n // w) + 2
+            t += 1
+            yield {"tag": "always_large_disp_irregular", "big": True, "case": "dispatch", "kind": kinds[k0],
+                   "grid": {"type": "irregular", "gen": {"seed": seed + t, "n": n}}, "list": False,
+                   "funcs": self._big_funcs(rng, 1, kinds[k0] != "array")}
+            t += 1
+            k1 = (k0 + 1) % 3
+            yield {"tag": "always_large_disp_uniform", "big": True, "case": "dispatch", "kind": kinds[k1],
+                   "grid": {"type": "uniform", "gen": {"seed": seed + t, "h": h, "w": w, "u": n}, "scales": sc(),
+                            "origin": og(), "store_native": rng.random() < 0.3},
+                   "list": rng.random() < 0.3, "funcs": self._big_funcs(rng, 1, kinds[k1] != "array")}
+            t += 1
+            k2 = rng.randrange(2)
+            yield {"tag": "always_large_disp_oned", "big": True, "case": "dispatch", "kind": kinds[k2],
+                   "grid": {"type": "oned", "gen": {"seed": seed + t, "n": n + 5, "u": n}, "scale": q(rng.choice(gen.SCALES)),
+                            "origin": q(gen.dyadic(rng, -3, 3, 2)), "store_native": rng.random() < 0.3},
+                   "list": False, "funcs": self._big_funcs(rng, 1, kinds[k2] != "array")}
+            t += 1
+            gt = rng.choice(["irregular", "ndarray"])
+            yield {"tag": f"always_large_relocate_{gt}", "big": True, "case": "relocate",
+                   "grid": {"type": gt, "gen": {"seed": seed + t, "n": n, "around": True}},
+                   "rmin": q(rng.choice([Fraction(5, 4), Fraction(5, 2), Fraction(1)])),
+                   "centre": [q(gen.dyadic(rng, -2, 2, 2)), q(gen.dyadic(rng, -2, 2, 2))]}
+            t += 1
+            yield {"tag": "always_large_project_line", "big": True, "case": "project", "attrs": "both",
+                   "angle": q(rng.choice([0, 30, 90, -60, 200, 17])),
+                   "centre": [q(gen.dyadic(rng, -2, 2, 2)), q(gen.dyadic(rng, -2, 2, 2))],
+                   "func": self._big_funcs(rng, 1, False)[0],
+                   "grid": {"type": "uniform", "gen": {"seed": seed + t, "h": 3, "w": 4, "u": 7}, "scales": sc(), "origin": og()},
+                   "line_n": n}
+            t += 1
+            yield {"tag": "always_large_transform", "big": True, "case": "transform", "depth": 1 + t % 3,
+                   "flag": False, "explicit_false": False,
+                   "centre": [q(gen.dyadic(rng, -3, 3, 2)), q(gen.dyadic(rng, -3, 3, 2))],
+                   "grid": {"type": "irregular", "gen": {"seed": seed + t, "n": n}}}
+
+    # ------------------------------------------------------------------ round 5/6: decades, extended
+    MAGS_EDGE = [-45, -44, -43, -42, -41] + list(range(28, 46))
+    MAGS_EXTREME = [-480, -440, -400, -333, -300, -250, -200, -150, -100, -64, 64, 100, 150, 200, 250, 300, 333,
+                    400, 440, 480]  # squares stay inside the double range (2^960 < 2^1023; 2^-960 > 2^-1022)
+
+    def _plain_case(self, rng, fam, i):
+        """an ordinary case of one family (grid types rotating with i), linear user functions"""
+        kinds = ["array", "grid", "vector"]
+        gt = ("uniform", "irregular", "oned")[i % 3]
+        if gt == "uniform":
+            m, mk = gen.random_mask(rng, rng.randint(1, 5), rng.randint(1, 5))
+            if all(all(r) for r in m):
+                m[0][0] = False
+            grid = self._uniform_grid(rng, m)
+        elif gt == "irregular":
+            grid = self._irregular_grid(rng)
+        else:
+            grid = self._oned_grid(rng)
+        if fam == "dispatch":
+            kind = kinds[(i // 3) % 3] if gt != "oned" else kinds[(i // 3) % 2]
+            return self._dispatch(rng, kind, grid, rng.random() < 0.25, f"disp_{gt}")
+        if fam == "project":
+            return {"tag": f"project_{gt}", "case": "project", "grid": grid,
+                    "attrs": rng.choice(["both", "both", "centre_only", "none"]),
+                    "centre": [q(gen.dyadic(rng, -2, 2, 2)), q(gen.dyadic(rng, -2, 2, 2))],
+                    "angle": q(rng.choice([0, 30, 45, 90, -60, 180, 200, 17, 123, 270, 359])),
+                    "func": _funcs(rng, 1, gt == "irregular" and rng.random() < 0.4)[0]}
+        if fam == "transform":
+            return {"tag": "transform", "case": "transform", "depth": rng.randint(1, 3),
+                    "flag": rng.random() < 0.3, "explicit_false": False,
+                    "centre": [q(gen.dyadic(rng, -3, 3, 2)), q(gen.dyadic(rng, -3, 3, 2))],
+                    "pts": self._irregular_grid(rng)["pts"]}
+        while True:
+            base = self._relocate_case(rng)
+            if "dtype" not in base["grid"]:
+                return base
+
+    @staticmethod
+    def _linear(fn):
+        fn = dict(fn)
+        for key in ("cy", "cx"):
+            if key in fn:
+                c = list(fn[key]) + ["0"] * (6 - len(fn[key]))
+                fn[key] = c[:3] + ["0", "0", "0"]
+        return fn
+
+    def _translate_case(self, case, ty, tx):
+        """the same case in a world translated by the (large, dyadic) offset (ty, tx): grid origin /
+        coordinates and the profile centre move together, so every difference the decorators form is the one of
+        the base case, while every absolute coordinate is huge — `allclose(centre, origin)`-style shortcuts with a
+        relative tolerance see an origin 10^5 offsets away"""
+        c = dict(case)
+        g = dict(case["grid"]) if "grid" in case else None
+        def mv(p):
+            return [q(Fraction(float(Fraction(p[0]) + ty))), q(Fraction(float(Fraction(p[1]) + tx)))]
+        if g is not None:
+            if g["type"] == "uniform":
+                g["origin"] = mv(g["origin"])
+            elif g["type"] in ("irregular", "ndarray"):
+                g["pts"] = [mv(p_) for p_ in g["pts"]]
+            else:
+                g["origin"] = q(Fraction(g["origin"]) + tx)
+            c["grid"] = g
+        if "pts" in case and case["case"] == "transform":
+            c["pts"] = [mv(p_) for p_ in case["pts"]]
+        if "centre" in case:
+            c["centre"] = mv(case["centre"])
+        if case["case"] == "project":
+            c["attrs"] = "both"  # a profile without a centre projects about (0,0): a line of 10^9 points
+        if "funcs" in case:
+            c["funcs"] = [self._linear(fn) for fn in case["funcs"]]
+        if "func" in case:
+            c["func"] = self._linear(case["func"])
+        c["tag"] = case["tag"] + "_far"
+        if g is not None and (g["type"] == "oned" or (case["case"] == "project" and g["type"] == "uniform")):
+            # the trigonometric paths (rotation of the 1-D line about 0, of the projected line about the centre)
+            # round relative to the magnitude of the absolute coordinates: compare relative to it
+            big = max(abs(ty), abs(tx)) if g["type"] == "uniform" else abs(tx)
+            c["mag"] = int(math.ceil(math.log2(float(big)))) + 3
+        return c
+
+    TIE_FRAMES = [(4, Fraction(1, 2), 2, Fraction(1)), (2, Fraction(3, 2), 4, Fraction(3, 4)),
+                  (6, Fraction(1, 4), 2, Fraction(3, 4)), (3, Fraction(1), 2, Fraction(3, 2)),
+                  (3, Fraction(2), 4, Fraction(3, 2)), (1, Fraction(3), 4, Fraction(3, 4))]
+
+    def _project_uniform(self, rng, h, w, sy, sx, origin, centre, tag, angle=None):
+        m, mk = gen.random_mask(rng, h, w)
+        if all(all(r) for r in m):
+            m[0][0] = False
+        return {"tag": tag, "case": "project",
+                "grid": {"type": "uniform", "mask": mask_json(m), "scales": [q(sy), q(sx)],
+                         "origin": [q(origin[0]), q(origin[1])]},
+                "attrs": "both", "centre": [q(centre[0]), q(centre[1])],
+                "angle": q(angle if angle is not None else rng.choice([0, 30, 45, 90, -60, 180, 200, 17, 123, 270])),
+                "func": self._linear(_funcs(rng, 1, False)[0])}
+
+    def _near_ties(self, tier, rng):
+        """R5-A: nearly-equal / nearly-zero / nearly-integer ingredients, relative difference 2^-18 .. 2^-40 (far
+        outside the property's 1e-9 where it matters, inside np.isclose / np.allclose defaults)"""
+        js = list(range(18, 41, 2 if tier == "quick" else 1))
+        for j in js:
+            e = Fraction(1, 2 ** j)
+            # 1. the four axis distances of project_grid nearly tie (which pixel scale steps the line)
+            h, sy, w, sx = rng.choice(self.TIE_FRAMES)
+            A = h * sy / 2
+            d = A * e
+            dy, dx = rng.choice([(d, 0), (0, d), (d, d), (d, d * (1 + Fraction(1, 1024))), (d * (1 + Fraction(1, 1024)), d),
+                                 (-d, d * (1 - Fraction(1, 1024))), (d, -d), (-d * (1 + Fraction(1, 64)), -d)])
+            oy, ox = gen.origin_pair(rng)
+            yield self._project_uniform(rng, h, w, sy, sx, (oy, ox), (oy + dy, ox + dx), "tie_project_dist")
+            # 2. int(distance / pixel_scale) nearly an integer
+            h, w = rng.randint(1, 4), rng.randint(1, 4)
+            sy, sx = gen.scales_pair(rng)
+            K = int((h * sy / 2) / sx) + w + rng.randint(1, 3)
+            t = sx * e * rng.choice([1, -1, 1, 0])
+            oy, ox = gen.origin_pair(rng)
+            yield self._project_uniform(rng, h, w, sy, sx, (oy, ox), (oy, ox + w * sx / 2 - (K * sx - t)),
+                                        "tie_project_count")
+            # 3. nearly-equal pixel scales
+            h, w = rng.randint(1, 5), rng.randint(1, 5)
+            sx = rng.choice(gen.SCALES)
+            sy = sx * (1 + e * rng.choice([1, -1]))
+            if rng.random() < 0.5:
+                sy, sx = sx, sy
+            oy, ox = gen.origin_pair(rng)
+            cy, cx = oy + gen.dyadic(rng, -1, 1, 2), ox + gen.dyadic(rng, -1, 1, 2)
+            yield self._project_uniform(rng, h, w, sy, sx, (oy, ox), (cy, cx), "tie_project_scales")
+            m, mk = gen.random_mask(rng, h, w)
+            if all(all(r) for r in m):
+                m[0][0] = False
+            g = {"type": "uniform", "mask": mask_json(m), "scales": [q(sy), q(sx)], "origin": [q(oy), q(ox)]}
+            yield self._dispatch(rng, rng.choice(["array", "grid", "vector"]), g, False, "tie_disp_scales")
+            # 4. radius nearly the radial minimum, on the axes (exact radii), and nearly zero
+            rmin = rng.choice([Fraction(5, 2), Fraction(1), Fraction(1, 4), Fraction(2)])
+            pts = []
+            for sgn in (1, -1):
+                r = rmin * (1 + sgn * e)
+                pts += [[q(0), q(r)], [q(-r), q(0)]]
+            pts += [[q(rmin * e), q(0)], [q(0), q(0)], [q(rmin), q(0)], [q(3 * rmin * e / 5), q(-4 * rmin * e / 5)]]
+            rng.shuffle(pts)
+            yield {"tag": "tie_relocate", "case": "relocate", "grid": {"type": rng.choice(["irregular", "ndarray"]), "pts": pts},
+                   "rmin": q(rmin), "centre": ["0", "0"]}
+            # 5. near-duplicate coordinates / nearly-uniform spacing in an irregular grid
+            base = [(gen.dyadic(rng, -6, 6, 2) or Fraction(1), gen.dyadic(rng, -6, 6, 2) or Fraction(1)) for _ in range(3)]
+            pts = []
+            for a, b in base:
+                pts += [[q(a), q(b)], [q(a * (1 + e)), q(b)], [q(a), q(b * (1 - e))]]
+            yield self._dispatch(rng, rng.choice(["array", "grid", "vector"]), {"type": "irregular", "pts": pts},
+                                 rng.random() < 0.2, "tie_disp_irregular")
+            # 6. a Grid1D whose x values are nearly equal / nearly zero
+            xs = [Fraction(0), e, -e, Fraction(1), 1 + e, 1 - e, 2 * e]
+            g1 = {"type": "oned", "bits": "0" * len(xs), "scale": "1", "origin": "0", "ctor": "no_mask", "dtype": "float",
+                  "xs": qlist(xs)}
+            yield self._dispatch(rng, rng.choice(["array", "grid"]), g1, False, "tie_disp_oned")
+        # 7. the profile angle nearly 0 / nearly -90 (so that angle + 90 is nearly 0)
+        for j in range(14, 23, 2 if tier == "quick" else 1):
+            e = Fraction(1, 2 ** j)
+            for ang in (e, -e, -90 + e, -90 - e, 90 + e):
+                gt = rng.choice(["uniform", "oned"])
+                if gt == "uniform":
+                    h, w = rng.randint(1, 4), rng.randint(2, 5)
+                    sy, sx = gen.scales_pair(rng)
+                    oy, ox = gen.origin_pair(rng)
+                    yield self._project_uniform(rng, h, w, sy, sx, (oy, ox), (oy + Fraction(1, 4), ox - Fraction(1, 2)),
+                                                "tie_project_angle", angle=ang)
+                else:
+                    yield {"tag": "tie_project_angle", "case": "project", "grid": self._oned_grid(rng), "attrs": "both",
+                           "centre": ["0", "0"], "angle": q(ang), "func": self._linear(_funcs(rng, 1, False)[0])}
+
+    DIRS = [(0, 1, 1), (1, 0, 1), (0, -1, 1), (-1, 0, 1), (1, 1, 1), (1, -1, 1), (-1, 1, 1), (-1, -1, 1),
+            (3, 4, 5), (-3, 4, 5), (3, -4, 5), (-3, -4, 5), (4, 3, 5), (-4, -3, 5), (5, -12, 13), (-12, 5, 13),
+            (8, 15, 17), (-15, -8, 17), (-7, 24, 25), (24, -7, 25)]
+
+    def _relocate_directions(self, tier, rng):
+        """R5-A: coordinates at radii 2^-k, k = 1 .. 60 (4.7e-1 .. 8.7e-19), in EVERY direction about the profile
+        centre (axes, diagonals, Pythagorean rays in all four quadrants, so nothing hides on the (+,+) diagonal the
+        centre itself is put on), against (i) an O(1) minimum — each must move outward along its own ray to exactly the
+        minimum —, (ii) a minimum just above and (iii) just below the radius — moved along the ray resp. handed on
+        unchanged.  The oracle judges the direction, not only the radius.  Independent of the seed but for the shuffle."""
+        step = 2 if tier == "quick" else 1
+        for k in range(1, 61, step):
+            r = Fraction(1, 2 ** k)
+            for var in range(3 if tier == "quick" else 4):
+                rmin = [rng.choice([Fraction(5, 2), Fraction(1), Fraction(1, 4)]), r * rng.choice([2, 4, Fraction(5, 4)]),
+                        r * rng.choice([Fraction(1, 2), Fraction(1, 4), Fraction(3, 4)]), r * 2 ** 10][var]
+                if (k + var) % 3 == 0 and k <= 40:
+                    centre = (gen.dyadic(rng, -2, 2, 2), gen.dyadic(rng, -2, 2, 2))
+                else:
+                    centre = (Fraction(0), Fraction(0))
+                dirs = list(self.DIRS)
+                rng.shuffle(dirs)
+                pts = []
+                for a, b, c3 in dirs[:12]:
+                    t = rng.choice([1, 1, Fraction(3, 2), Fraction(3, 4)])
+                    p_ = (centre[0] + r * t * Fraction(a, c3), centre[1] + r * t * Fraction(b, c3))
+                    pts.append([q(Fraction(float(p_[0]))), q(Fraction(float(p_[1])))])
+                if var == 0:
+                    pts.insert(rng.randrange(len(pts)), [q(centre[0]), q(centre[1])])
+                gt = ("irregular", "ndarray")[(k + var) % 2]
+                yield {"tag": "relocate_directions", "case": "relocate", "grid": {"type": gt, "pts": pts},
+                       "rmin": q(rmin), "centre": [q(centre[0]), q(centre[1])]}
+
+    def _relocate_extreme(self, tier, rng):
+        """R5-E: the radial minimum in worlds of magnitude 2^+-520 .. 2^+-990 — beyond the range where the SQUARE
+        of a coordinate is a double.  The decorator itself only divides and multiplies (r_min / r, p * scale), so it
+        is exact there; code that starts to square (r**2 < r_min**2, r_min**2 / r**2 ...) is not.  The mock
+        profile's own radius function is np.hypot for these cases, the model is asked for the world scaled back."""
+        for k in (-990, -800, -600, -520, 520, 600, 800, 990):
+            for _ in range(2 if tier == "quick" else 6):
+                rmin = rng.choice([Fraction(5, 2), Fraction(1), Fraction(5, 4), Fraction(2)])
+                centre = rng.choice([(Fraction(0), Fraction(0)), (gen.dyadic(rng, -2, 2, 2), gen.dyadic(rng, -2, 2, 2))])
+                pts = [[q(centre[0]), q(centre[1])]]
+                for _ in range(rng.randint(3, 7)):
+                    a, b, c3 = rng.choice([(3, 4, 5), (5, 12, 13), (8, 15, 17), (0, 1, 1), (1, 0, 1)])
+                    t = rng.choice([1, 1 - TWO20, 1 + TWO20, Fraction(1, 2), Fraction(3, 4), 2, Fraction(1, 8), 3])
+                    sa, sb = rng.choice([1, -1]), rng.choice([1, -1])
+                    p_ = (centre[0] + sa * rmin * t * Fraction(a, c3), centre[1] + sb * rmin * t * Fraction(b, c3))
+                    pts.append([q(Fraction(float(p_[0]))), q(Fraction(float(p_[1])))])
+                rng.shuffle(pts)
+                base = {"tag": "relocate", "case": "relocate", "grid": {"type": rng.choice(["irregular", "ndarray"]), "pts": pts},
+                        "rmin": q(rmin), "centre": [q(centre[0]), q(centre[1])]}
+                c = self._scale_case(base, k)
+                c["tag"] = "relocate_xxdec"
+                c["msc"] = k
+                yield c
+
+    def _decades_ext(self, tier, rng):
+        """R5-A / R5-E: (a) the whole world at magnitudes beyond the round-4 range (2^-45 .. 2^45 completely) and
+        at EXTREME magnitudes (2^+-64 .. 2^+-480: the squares formed by the projection / radius code stay inside
+        the double range), (b) ONE ingredient at another magnitude: a tiny radial minimum in an O(1) world, the whole
+        world far from the origin, (c) near-ties"""
+        fams = ["relocate", "dispatch", "project", "transform"]
+        i = 0
+        reps = 1 if tier == "quick" else 4
+        for _ in range(reps):
+            for k in self.MAGS_EDGE + self.MAGS_EXTREME:
+                for fam in fams:
+                    if fam == "relocate" and abs(k) > 440:
+                        continue
+                    if fam == "transform" and i % 2 and abs(k) < 64:
+                        i += 1
+                        continue
+                    i += 1
+                    c = self._scale_case(self._plain_case(rng, fam, i), k)
+                    if c is not None:
+                        c["tag"] = c["tag"][:-4] + ("_xdec" if abs(k) >= 64 else "_edec")
+                        yield c
+            # (b1) tiny radial minimum, O(1) world
+            for k in range(-100, -40, 3 if tier == "quick" else 1):
+                f = Fraction(2) ** k
+                rmin = rng.choice([Fraction(5, 2), Fraction(1), Fraction(5, 4)]) * f
+                centre = (Fraction(0), Fraction(0)) if k % 2 else (gen.dyadic(rng, -2, 2, 2), gen.dyadic(rng, -2, 2, 2))
+                pts = [[q(centre[0]), q(centre[1])]]
+                for _ in range(rng.randint(1, 4)):
+                    pts.append([q(centre[0] + gen.dyadic(rng, -4, 4, 3)), q(centre[1] + gen.dyadic(rng, -4, 4, 3))])
+                if centre == (0, 0):
+                    for t in (Fraction(1, 2), 1 - TWO20, 1, 1 + TWO20, 2, Fraction(1, 2 ** 30)):
+                        a, b, c3 = rng.choice([(3, 4, 5), (5, 12, 13), (0, 1, 1), (1, 0, 1)])
+                        p_ = (rng.choice([1, -1]) * rmin * t * Fraction(a, c3), rng.choice([1, -1]) * rmin * t * Fraction(b, c3))
+                        pts.append([q(Fraction(float(p_[0]))), q(Fraction(float(p_[1])))])
+                rng.shuffle(pts)
+                yield {"tag": "relocate_tiny_rmin", "case": "relocate",
+                       "grid": {"type": rng.choice(["irregular", "ndarray"]), "pts": pts},
+                       "rmin": q(rmin), "centre": [q(centre[0]), q(centre[1])]}
+            # (b2) the world far from the origin
+            for sh in range(14, 31, 2 if tier == "quick" else 1):
+                for fam in fams:
+                    i += 1
+                    ty = rng.choice([-7, -5, -3, -1, 1, 3, 5, 7]) * Fraction(2) ** sh
+                    tx = rng.choice([-7, -5, -3, -1, 1, 3, 5, 7]) * Fraction(2) ** rng.randint(14, sh)
+                    yield self._translate_case(self._plain_case(rng, fam, i), ty, tx)
+        yield from self._near_ties(tier, rng)
+        yield from self._relocate_directions(tier, rng)
+        yield from self._relocate_extreme(tier, rng)
+
+    # ------------------------------------------------------------------ round 5/6: layout / container variants
+    XA = [
+        {"mult": "5/2", "add": "-3/4", "how": "pos"},
+        {"mult": "-2", "add": "0", "how": "kw"},  # add = 0.0: set but falsy
+        {"mult": "3/2", "add": "1/2", "how": "mixed",
+         "extra": {"opt_none": None, "opt_zero": 0, "opt_false": False, "opt_str": "", "opt_list": []}},
+        {"how": "none", "extra": {"flag": False, "n": 0, "x": 0.0}},
+    ]
+    RETS = ["F", "T", "strided", "rev", "readonly", "float32", "int64", "struct", "struct_native", "native_junk"]
+
+    def _xa_dispatch(self, i):
+        """extra arguments of a call through to_array / to_grid / to_vector_yx: keyword arguments only (these
+        wrappers hand `*args` on AFTER keywords to the maker's constructor, so a positional extra argument is a
+        TypeError on the unchanged tree; the property does not speak about extra arguments at all — what is checked
+        is that keyword arguments, falsy ones included, reach the function and the values follow them)"""
+        xa = dict(self.XA[i % len(self.XA)])
+        if xa.get("how") in ("pos", "mixed"):
+            xa["how"] = "kw"
+        return xa
+
+    def _int_world(self, rng, gt):
+        """a grid spec and functions with INTEGER values throughout (integer / half-integer coordinates, even
+        degree-1 and multiple-of-4 degree-2 coefficients): integer and float32 result dtypes stay exact"""
+        if gt == "uniform":
+            m, mk = gen.random_mask(rng, rng.randint(1, 5), rng.randint(1, 5))
+            if all(all(r) for r in m):
+                m[0][0] = False
+            g = {"type": "uniform", "mask": mask_json(m), "scales": [q(rng.choice([1, 2])), q(rng.choice([1, 2]))],
+                 "origin": [q(rng.randint(-3, 3)), q(rng.randint(-3, 3))]}
+        elif gt == "irregular":
+            g = {"type": "irregular", "pts": [[q(rng.randint(-6, 6)), q(rng.randint(-6, 6))]
+                                              for _ in range(rng.randint(1, 7))]}
+        else:
+            n = rng.randint(1, 7)
+            bits = "".join("1" if rng.random() < 0.3 else "0" for _ in range(n))
+            if "0" not in bits:
+                bits = "0" + bits[1:]
+            g = {"type": "oned", "bits": bits, "scale": q(rng.choice([2, 4])), "origin": q(rng.randint(8, 12) * 2 + n)}
+        return g
+
+    def _int_funcs(self, rng, n, pair):
+        out = []
+        for _ in range(n):
+            def coeffs():
+                c = [rng.randint(-3, 3), 2 * rng.choice([-2, -1, 1, 2]), 2 * rng.choice([-3, -1, 2, 3])]
+                c += [4 * rng.randint(-1, 1) for _ in range(3)] if rng.random() < 0.5 else [0, 0, 0]
+                if c[1] == c[2]:
+                    c[2] += 2
+                return qlist([Fraction(v) for v in c])
+            fn = {"mode": rng.choice(["poly", "index", "prefix"]), "cy": coeffs()}
+            if pair:
+                fn["cx"] = coeffs()
+            out.append(fn)
+        return out
+
+    def _layout_variants(self, gt):
+        """(ctor / storage keys, lay) variants of one grid type — enumerated, independent of the seed"""
+        out = []
+        if gt == "uniform":
+            for m in ("F", "T", "strided", "rev", "readonly", "list", "int", "int_list"):
+                out.append(({}, {"m": m}))
+            out += [({}, {"minv": True}), ({}, {"minv": True, "m": "F"}), ({}, {"mwrap": True}),
+                    ({}, {"mwrap": True, "m": "list"}), ({}, {"ps": "scalar"}), ({}, {"origin": "default"}),
+                    ({}, {"falsy": True}), ({"store_native": True}, {"m": "T"})]
+            for v in ("F", "T", "strided", "rev", "readonly", "list"):
+                out.append(({"ctor": "manual"}, {"v": v}))
+                out.append(({"ctor": "manual", "manual_native_input": True, "store_native": v in ("T", "list")},
+                            {"v": v, "vjunk": v in ("F", "strided", "list")}))
+            out.append(({"ctor": "manual", "store_native": True}, {"v": "F", "m": "F"}))
+        elif gt == "irregular":
+            for v in ("F", "T", "strided", "rev", "readonly", "yx_1d"):
+                out.append(({}, {"v": v}))
+            out += [({"dtype": "float32"}, {"v": "F"}), ({"dtype": "int64"}, {"v": "strided"}),
+                    ({"dtype": "tuple"}, {}), ({"dtype": "wrapped"}, {})]
+        elif gt == "ndarray":
+            for v in ("F", "T", "strided", "rev", "readonly"):
+                out.append(({}, {"v": v}))
+            out += [({"dtype": "float32"}, {"v": "F"}), ({"dtype": "float32"}, {"v": "strided"}),
+                    ({"dtype": "int64"}, {"v": "T"})]
+        else:
+            for m in ("strided", "rev", "readonly", "list", "int", "int_list"):
+                out.append(({}, {"m": m}))
+            out += [({}, {"minv": True}), ({}, {"mwrap": True}), ({}, {"ps": "tuple"}), ({}, {"origin": "default"}),
+                    ({}, {"falsy": True}), ({"store_native": True}, {"m": "strided"})]
+            for v in ("strided", "rev", "readonly", "list"):
+                out.append(({"ctor": "manual"}, {"v": v}))
+                out.append(({"ctor": "manual", "manual_native_input": True, "store_native": v in ("rev", "list")},
+                            {"v": v, "vjunk": True}))
+        return out
+
+    def _apply_variant(self, g, keys, lay):
+        """the grid spec `g` through the variant; specs the variant needs are made to fit (equal scales for a
+        scalar pixel scale, a (0,0) origin for an omitted origin argument)"""
+        g = {**g, **keys}
+        lay = dict(lay)
+        if lay.get("minv") and lay.get("m") in ("int", "int_list"):
+            # `invert` is documented for the bools of the mask (an integer array is inverted bitwise)
+            lay.pop("m")
+        if g["type"] == "uniform":
+            if lay.get("ps") == "scalar":
+                g["scales"] = [g["scales"][0], g["scales"][0]]
+            if lay.get("origin") == "default":
+                g["origin"] = ["0", "0"]
+        elif g["type"] == "oned":
+            if lay.get("origin") == "default":
+                g["origin"] = "0"
+        if lay:
+            g["lay"] = lay
+        return g
+
+    def _layouts(self, tier, rng):
+        """R5-C: every array-taking entry point of the property — the mask array, the coordinate arrays of the
+        grid constructors, the ndarray handed to the radial-minimum decorator, the array the USER FUNCTION
+        returns — with equal values in other layouts / containers / dtypes"""
+        kinds = ["array", "grid", "vector"]
+        i = 0
+        reps = 1 if tier == "quick" else 4
+        for _ in range(reps):
+            # 1. input layouts through the dispatch decorators, project_grid and the radial minimum
+            for gt in ("uniform", "irregular", "oned"):
+                for keys, lay in self._layout_variants(gt):
+                    if gt == "uniform":
+                        m, mk = gen.random_mask(rng, rng.randint(1, 5), rng.randint(1, 5))
+                        if all(all(r) for r in m):
+                            m[0][0] = False
+                        base = self._uniform_grid(rng, m)
+                    elif gt == "irregular":
+                        base = self._irregular_grid(rng, rng.randint(1, 7))
+                        if keys.get("dtype") == "int64":
+                            base["pts"] = [[q(rng.randint(-9, 9)), q(rng.randint(-9, 9))] for _ in base["pts"]]
+                        elif keys.get("dtype") == "float32":
+                            base["pts"] = [[q(gen.dyadic(rng, -6, 6, 2)), q(gen.dyadic(rng, -6, 6, 2))] for _ in base["pts"]]
+                    else:
+                        base = self._oned_grid(rng)
+                    g = self._apply_variant(base, keys, lay)
+                    kind = kinds[i % 3] if gt != "oned" else kinds[i % 2]
+                    i += 1
+                    yield self._dispatch(rng, kind, g, i % 4 == 0, f"lay_disp_{gt}")
+                    if i % 2 == 0:
+                        pair = gt == "irregular" and i % 4 == 0
+                        yield {"tag": f"lay_project_{gt}", "case": "project", "grid": g, "attrs": "both",
+                               "centre": [q(gen.dyadic(rng, -2, 2, 2)), q(gen.dyadic(rng, -2, 2, 2))],
+                               "angle": q(rng.choice([0, 30, 45, 90, -60, 180, 200, 17, 123, 270, 359])),
+                               "func": _funcs(rng, 1, pair)[0]}
+            for gt in ("ndarray", "irregular", "uniform"):
+                for keys, lay in self._layout_variants(gt):
+                    if keys.get("store_native") or keys.get("dtype") in ("tuple", "wrapped"):
+                        continue
+                    while True:
+                        base = self._relocate_case(rng)
+                        if base["grid"]["type"] == gt and "dtype" not in base["grid"]:
+                            break
+                    g = dict(base["grid"])
+                    if keys.get("dtype") == "float32":
+                        g["pts"] = [[q(Fraction(float(np.float32(float(Fraction(a)))))),
+                                     q(Fraction(float(np.float32(float(Fraction(b))))))] for a, b in g["pts"]]
+                    elif keys.get("dtype") == "int64":
+                        cy, cx = rng.randint(-2, 2), rng.randint(-2, 2)
+                        g["pts"] = [[q(cy + rng.randint(-4, 4)), q(cx + rng.randint(-4, 4))] for _ in g["pts"]]
+                        base = {**base, "centre": [q(cy), q(cx)]}
+                    if gt == "uniform" and (lay.get("ps") or lay.get("origin")):
+                        continue  # the centre / minimum of the base case were chosen for its scales and origin
+                    yield {**base, "grid": self._apply_variant(g, keys, lay), "tag": f"lay_relocate_{gt}"}
+            # 2. the form the user function returns its values in
+            for gt in ("uniform", "irregular", "oned"):
+                for ret in self.RETS + ["list_elem"]:
+                    for kind in (kinds if gt != "oned" else kinds[:2]):
+                        is_list = ret == "list_elem" or i % 3 == 0
+                        i += 1
+                        if ret in ("float32", "int64"):
+                            g = self._int_world(rng, gt)
+                            c = self._dispatch(rng, kind, g, is_list, f"ret_{gt}")
+                            c["funcs"] = self._int_funcs(rng, len(c["funcs"]), kind != "array")
+                        else:
+                            if gt == "uniform":
+                                m, mk = gen.random_mask(rng, rng.randint(1, 5), rng.randint(1, 5))
+                                if all(all(r) for r in m):
+                                    m[0][0] = False
+                                g = self._uniform_grid(rng, m)
+                                if i % 5 == 0:
+                                    g["store_native"] = True
+                            elif gt == "irregular":
+                                g = self._irregular_grid(rng, rng.randint(1, 7))
+                            else:
+                                g = self._oned_grid(rng)
+                            c = self._dispatch(rng, kind, g, is_list, f"ret_{gt}")
+                        if not c["funcs"]:
+                            continue
+                        c["ret"] = ret
+                        yield c
+            for ret in ("F", "T", "strided", "rev", "readonly", "float32"):
+                for gt in ("uniform", "irregular", "oned"):
+                    g = self._int_world(rng, gt) if ret == "float32" else (
+                        self._uniform_grid(rng, gen.random_mask(rng, rng.randint(1, 4), rng.randint(1, 4))[0])
+                        if gt == "uniform" else self._irregular_grid(rng) if gt == "irregular" else self._oned_grid(rng))
+                    pair = gt == "irregular" and ret in ("F", "T", "strided")
+                    fn = (self._int_funcs if ret == "float32" else lambda r, n, p_: _funcs(r, n, p_))(rng, 1, pair)[0]
+                    yield {"tag": f"ret_project_{gt}", "case": "project", "grid": g, "attrs": "both",
+                           "centre": [q(rng.randint(-2, 2)), q(rng.randint(-2, 2))],
+                           "angle": q(rng.choice([0, 30, 90, -60, 200, 17])), "func": fn, "ret": ret}
+
+    # ------------------------------------------------------------------ round 5/6: options crossed pairwise
+    def _option_table(self, gt):
+        """option -> non-default values ("set but falsy" ones included), for the constructors of the grid type
+        and for the decorated call; checked against the real signatures at generation time"""
+        call = {"list": [True], "ret": ["struct_native", "native_junk", "T"], "xa": [0, 1, 2, 3],
+                "kind": ["grid", "vector"] if gt != "oned" else ["grid"]}
+        if gt == "uniform":
+            return {"store_native": [True], "ctor": ["manual", "manual_native"],
+                    "over_sampling": ["uniform2", "iterate", None], "over_sampling_non_uniform": ["uniform1"],
+                    "mask": ["F", "strided", "list", "int"], "invert": [True, False], "mask_from_mask": [True],
+                    "pixel_scales": ["scalar"], "origin": ["default"],
+                    "values": ["T", "readonly", "list"], **call}
+        if gt == "irregular":
+            return {"dtype": ["float32", "int64", "int_list", "tuple", "wrapped"],
+                    "values": ["F", "T", "strided", "readonly", "yx_1d"], **call}
+        return {"store_native": [True], "ctor": ["manual", "manual_native"],
+                "mask": ["strided", "list", "int"], "invert": [True, False], "mask_from_mask": [True],
+                "pixel_scales": ["tuple"], "origin": ["default"], "values": ["rev", "readonly", "list"], **call}
+
+    _SIG_OK = None
+
+    def _signature_check(self):
+        """the option table names the parameters the constructors really have (inspect.signature): a renamed or
+        new parameter is reported once in the run log, never as a violation"""
+        if C17._SIG_OK is not None:
+            return C17._SIG_OK
+        import inspect
+
+        aa = load_autoarray()
+        known = {"values", "mask", "store_native", "over_sampling", "over_sampling_non_uniform", "pixel_scales",
+                 "origin", "invert", "self", "args", "kwargs", "shape_native"}
+        new = []
+        for cls in (aa.Grid2D, aa.Grid2DIrregular, aa.Grid1D, aa.Mask2D, aa.Mask1D):
+            for fn in (cls.__init__, getattr(cls, "from_mask", None), getattr(cls, "uniform", None),
+                       getattr(cls, "no_mask", None)):
+                if fn is None:
+                    continue
+                for name in inspect.signature(fn).parameters:
+                    if name not in known:
+                        new.append(f"{cls.__name__}.{getattr(fn, '__name__', '?')}({name})")
+        C17._SIG_OK = new
+        return new
+
+    def _apply_option(self, c, opt, val, rng):
+        """one option value applied to a dispatch case (returns the new case)"""
+        g = dict(c["grid"])
+        lay = dict(g.get("lay") or {})
+        if opt == "list":
+            c = {**c, "list": True, "funcs": c["funcs"] + _funcs(rng, 1, c["kind"] != "array")}
+        elif opt == "ret":
+            c = {**c, "ret": val}
+        elif opt == "xa":
+            c = {**c, "xa": self._xa_dispatch(val)}
+        elif opt == "kind":
+            pair_before = c["kind"] != "array"
+            c = {**c, "kind": val}
+            if not pair_before:
+                c["funcs"] = [{**fn, "cx": _funcs(rng, 1, True)[0]["cx"]} for fn in c["funcs"]]
+        elif opt == "store_native":
+            g["store_native"] = True
+        elif opt == "ctor":
+            g["ctor"] = "manual"
+            g["manual_native_input"] = val == "manual_native"
+        elif opt == "over_sampling":
+            lay["os"] = val
+        elif opt == "over_sampling_non_uniform":
+            lay["osn"] = val
+            g.setdefault("ctor", "manual")
+        elif opt == "mask":
+            lay["m"] = val
+        elif opt == "invert":
+            if val:
+                lay["minv"] = True
+            else:
+                lay["falsy"] = True
+        elif opt == "mask_from_mask":
+            lay["mwrap"] = True
+        elif opt == "pixel_scales":
+            lay["ps"] = val
+        elif opt == "origin":
+            lay["origin"] = "default"
+        elif opt == "values":
+            lay["v"] = val
+            if g["type"] != "irregular":
+                g.setdefault("ctor", "manual")
+        elif opt == "dtype":
+            g["dtype"] = val
+            if val in ("int64", "int_list"):
+                g["pts"] = [[q(int(Fraction(a))), q(int(Fraction(b)))] for a, b in g["pts"]]
+            elif val == "float32":
+                g["pts"] = [[q(Fraction(float(np.float32(float(Fraction(a)))))),
+                             q(Fraction(float(np.float32(float(Fraction(b))))))] for a, b in g["pts"]]
+        if "os" in lay and g.get("ctor") in (None, "from_mask", "manual"):
+            pass
+        g = self._apply_variant(g, {}, lay)
+        if g["type"] == "uniform" and g.get("ctor") == "manual" and g.get("store_native") is None:
+            g["store_native"] = False
+        return {**c, "grid": g}
+
+    def _options_pairwise(self, tier, rng):
+        """R5-F: every non-default value of one option with every non-default value of every other option"""
+        self._signature_check()
+        for gt in ("uniform", "irregular", "oned"):
+            table = self._option_table(gt)
+            names = sorted(table)
+            pairs = [(a, va, b, vb) for i, a in enumerate(names) for b in names[i + 1:]
+                     for va in table[a] for vb in table[b]]
+            if tier == "quick":
+                # a seed-dependent half of the pairs per run (every pair within two seeds)
+                off = rng.randrange(2)
+                pairs = [p_ for j, p_ in enumerate(pairs) if (j + off) % 2 == 0]
+            for a, va, b, vb in pairs:
+                if gt == "uniform":
+                    m, mk = gen.random_mask(rng, rng.randint(1, 4), rng.randint(1, 4))
+                    if all(all(r) for r in m):
+                        m[0][0] = False
+                    g = self._uniform_grid(rng, m)
+                elif gt == "irregular":
+                    g = self._irregular_grid(rng, rng.randint(1, 6))
+                else:
+                    g = self._oned_grid(rng)
+                c = self._dispatch(rng, "array", g, False, f"opt_{gt}")
+                for opt, val in sorted([(a, va), (b, vb)], key=lambda t: t[0] in ("ret", "xa", "list", "kind")):
+                    c = self._apply_option(c, opt, val, rng)
+                if c["grid"]["type"] == "oned" and c["kind"] == "vector":
+                    continue
+                if c.get("ret") == "native_junk" and c["grid"]["type"] == "irregular":
+                    c["ret"] = "struct"
+                c["opts"] = [[a, va], [b, vb]]
+                yield c
 
     # ------------------------------------------------------------------ implementation
+    def _over_sampling(self, aa, how):
+        if how == "uniform2":
+            return aa.OverSamplingUniform(sub_size=2)
+        if how == "uniform1":
+            return aa.OverSamplingUniform(sub_size=1)
+        if how == "iterate":
+            return aa.OverSamplingIterate(fractional_accuracy=0.5, sub_steps=[2])
+        return None
+
+    def _make_mask2d(self, aa, m, scales, origin, lay):
+        """`Mask2D` of the bool array `m` through the constructor variant `lay` (round 5/6, R5-C / R5-F):
+        m: memory layout / container / dtype of the mask array; minv: the inverted array with `invert=True`;
+        ps: "scalar" (a float instead of a pair, only when both scales are equal); origin: "default" (argument
+        omitted, only for a (0,0) origin); mwrap: built from ANOTHER Mask2D (one with other pixel scales and
+        another origin), all attributes given explicitly"""
+        marr = _layout(~m if lay.get("minv") else m, lay.get("m"))
+        self._inputs.append(marr)
+        kw = {"pixel_scales": scales, "origin": origin}
+        if lay.get("ps") == "scalar" and scales[0] == scales[1]:
+            kw["pixel_scales"] = scales[0]
+        if lay.get("origin") == "default" and tuple(origin) == (0.0, 0.0):
+            kw.pop("origin")
+        if lay.get("minv"):
+            kw["invert"] = True
+        elif lay.get("falsy"):
+            kw["invert"] = False
+        if lay.get("mwrap"):
+            inner = aa.Mask2D(mask=marr, pixel_scales=(scales[0] * 2.0, scales[1] * 0.5),
+                              origin=(origin[0] + 1.5, origin[1] - 0.25), invert=bool(lay.get("minv")))
+            kw.pop("invert", None)
+            return aa.Mask2D(mask=inner, **kw)
+        return aa.Mask2D(mask=marr, **kw)
+
+    def _make_mask1d(self, aa, mask, scale, origin, lay):
+        marr = _layout(~mask if lay.get("minv") else mask, lay.get("m"))
+        self._inputs.append(marr)
+        kw = {"pixel_scales": scale, "origin": origin}
+        if lay.get("ps") == "tuple":
+            kw["pixel_scales"] = (scale,)
+        if lay.get("origin") == "default" and tuple(origin) == (0.0,):
+            kw.pop("origin")
+        if lay.get("minv"):
+            kw["invert"] = True
+        elif lay.get("falsy"):
+            kw["invert"] = False
+        if lay.get("mwrap"):
+            inner = aa.Mask1D(mask=marr, pixel_scales=scale * 2.0, origin=(origin[0] + 1.5,),
+                              invert=bool(lay.get("minv")))
+            kw.pop("invert", None)
+            return aa.Mask1D(mask=inner, **kw)
+        return aa.Mask1D(mask=marr, **kw)
+
+    _inputs = []
+
     def _make_grid(self, aa, g):
+        """the grid object of a grid spec.  `g["lay"]` (round 5/6): layout / container / option variants of the
+        arrays handed to the constructors — equal values, so the same mathematical grid.  The arrays handed to
+        the constructors are collected in `self._inputs` (ownership histories scribble over them)."""
+        self._inputs = []
+        lay = g.get("lay") or {}
+        osamp = self._over_sampling(aa, lay.get("os"))
+        okw = {"over_sampling": osamp} if ("os" in lay) else {}
         if g["type"] == "uniform":
             h, w = g["mask"]["h"], g["mask"]["w"]
             m = np.array([c == "1" for c in g["mask"]["bits"]], dtype=bool).reshape(h, w)
             scales = tuple(float(Fraction(v)) for v in g["scales"])
             origin = tuple(float(Fraction(v)) for v in g["origin"])
-            mask = aa.Mask2D(mask=m, pixel_scales=scales, origin=origin)
+            mask = self._make_mask2d(aa, m, scales, origin, lay)
             ctor = g.get("ctor", "from_mask")
             if ctor == "uniform":
-                grid = aa.Grid2D.uniform(shape_native=(h, w), pixel_scales=scales, origin=origin)
+                ukw = dict(okw)
+                if not (lay.get("origin") == "default" and origin == (0.0, 0.0)):
+                    ukw["origin"] = origin
+                grid = aa.Grid2D.uniform(shape_native=(h, w), pixel_scales=(
+                    scales[0] if lay.get("ps") == "scalar" and scales[0] == scales[1] else scales), **ukw)
             elif ctor == "no_mask":
                 vals = _conv(g["coords"], g.get("dtype", "float"))
                 if isinstance(vals, np.ndarray):
                     vals = vals.reshape(h, w, 2)
+                    if lay.get("v"):
+                        vals = _layout(vals, lay["v"])
                 elif isinstance(vals, list):
                     vals = [vals[y * w:(y + 1) * w] for y in range(h)]
-                grid = aa.Grid2D.no_mask(values=vals, pixel_scales=scales, origin=origin)
+                self._inputs.append(vals)
+                grid = aa.Grid2D.no_mask(values=vals, pixel_scales=scales, origin=origin, **okw)
             elif ctor == "manual":
                 base = aa.Grid2D.from_mask(mask=mask)
                 src = base.native if g.get("manual_native_input") else base
-                grid = aa.Grid2D(values=np.array(src.array), mask=mask, store_native=bool(g.get("store_native")))
+                vals = np.array(src.array)
+                if g.get("manual_native_input") and lay.get("vjunk"):
+                    vals[np.asarray(mask)] = 9.75  # junk at masked pixels of a native input: must be ignored
+                vals = _layout(vals, lay.get("v"))
+                self._inputs.append(vals)
+                mkw = dict(okw)
+                if "osn" in lay:
+                    mkw["over_sampling_non_uniform"] = self._over_sampling(aa, lay["osn"])
+                if g.get("store_native") or lay.get("falsy"):
+                    mkw["store_native"] = bool(g.get("store_native"))
+                grid = aa.Grid2D(values=vals, mask=mask, **mkw)
             else:
-                grid = aa.Grid2D.from_mask(mask=mask)
+                grid = aa.Grid2D.from_mask(mask=mask, **okw)
             if g.get("store_native") and ctor != "manual":
                 grid = grid.native
             return grid
@@ -1278,25 +2336,51 @@ class C17(PropertyCheck):
             dt = g.get("dtype", "float")
             if dt == "wrapped":
                 return aa.Grid2DIrregular(values=aa.Grid2DIrregular(values=_conv(g["pts"], "float")))
-            return aa.Grid2DIrregular(values=_conv(g["pts"], dt))
+            if lay.get("v") == "yx_1d":
+                arr = np.array(_conv(g["pts"], "ndarray"), dtype="float64").reshape(-1, 2)
+                y, x = _layout(arr[:, 0], "strided"), _layout(arr[:, 1], "rev")
+                self._inputs += [y, x]
+                return aa.Grid2DIrregular.from_yx_1d(y=y, x=x)
+            vals = _conv(g["pts"], dt)
+            if lay.get("v"):
+                arr = np.array(vals).reshape(-1, 2)
+                vals = _layout(arr, lay["v"])
+            self._inputs.append(vals)
+            return aa.Grid2DIrregular(values=vals)
         if g["type"] == "ndarray":
             dt = g.get("dtype", "ndarray")
-            return np.array(_conv(g["pts"], dt if dt in ("int64", "float32") else "ndarray"))
+            arr = np.array(_conv(g["pts"], dt if dt in ("int64", "float32") else "ndarray"))
+            if lay.get("v"):
+                arr = _layout(arr.reshape(-1, 2), lay["v"])
+            self._inputs.append(arr)
+            return arr
         mask = np.array([c == "1" for c in g["bits"]], dtype=bool)
         scale = float(Fraction(g["scale"]))
         origin = (float(Fraction(g["origin"])),)
-        m1 = aa.Mask1D(mask=mask, pixel_scales=scale, origin=origin)
+        m1 = self._make_mask1d(aa, mask, scale, origin, lay)
         ctor = g.get("ctor", "from_mask")
         if ctor == "uniform":
             grid = aa.Grid1D.uniform(shape_native=(len(mask),), pixel_scales=scale, origin=origin)
         elif ctor == "uniform_from_zero":
             grid = aa.Grid1D.uniform_from_zero(shape_native=(len(mask),), pixel_scales=scale)
         elif ctor == "no_mask":
-            grid = aa.Grid1D.no_mask(values=_conv(g["xs"], g.get("dtype", "float")), pixel_scales=scale, origin=origin)
+            vals = _conv(g["xs"], g.get("dtype", "float"))
+            if lay.get("v") and isinstance(vals, np.ndarray):
+                vals = _layout(vals, lay["v"])
+            self._inputs.append(vals)
+            grid = aa.Grid1D.no_mask(values=vals, pixel_scales=scale, origin=origin)
         elif ctor == "manual":
             base = aa.Grid1D.from_mask(mask=m1)
             src = base.native if g.get("manual_native_input") else base
-            return aa.Grid1D(values=np.array(src.array), mask=m1, store_native=bool(g.get("store_native")))
+            vals = np.array(src.array)
+            if g.get("manual_native_input") and lay.get("vjunk"):
+                vals[mask] = 9.75
+            vals = _layout(vals, lay.get("v"))
+            self._inputs.append(vals)
+            mkw = {}
+            if g.get("store_native") or lay.get("falsy"):
+                mkw["store_native"] = bool(g.get("store_native"))
+            return aa.Grid1D(values=vals, mask=m1, **mkw)
         else:
             grid = aa.Grid1D.from_mask(mask=m1)
         if g.get("store_native"):
@@ -1361,6 +2445,138 @@ class C17(PropertyCheck):
             return mocks["dispatch"](funcs=[case["func"]], pair=pair, centre=centre, angle=angle)
         return mocks["radial"](centre=tuple(float(Fraction(v)) for v in case["centre"]))
 
+    # ---- round 5/6 (R5-F): extra arguments of the user function, handed through the decorators
+    @staticmethod
+    def _xa_call(xa):
+        """(positional, keyword) extra arguments of a decorated call.  xa = {"mult", "add", "how": pos | kw |
+        mixed | none, "extra": {...}}: value = mult * phi + add; `extra` are further keyword arguments ("set but
+        falsy" values among them) that must reach the function as given."""
+        if not xa:
+            return (), {}
+        mult, add = float(Fraction(xa.get("mult", "1"))), float(Fraction(xa.get("add", "0")))
+        how = xa.get("how", "pos")
+        if how == "pos":
+            pargs, kw = (mult, add), {}
+        elif how == "kw":
+            pargs, kw = (), {"mult": mult, "add": add}
+        elif how == "mixed":
+            pargs, kw = (mult,), {"add": add}
+        else:
+            pargs, kw = (), {}
+        for k, v in (xa.get("extra") or {}).items():
+            kw[k] = v
+        return pargs, kw
+
+    @staticmethod
+    def _xa_received(got, pargs, kw):
+        """did the user function receive exactly the extra arguments of the call (values and types)"""
+        if got is None:
+            return False
+        def canon(v):
+            return (type(v).__name__, v)
+        gargs, gkw = got
+        return [canon(v) for v in gargs] == [canon(v) for v in pargs] and \
+            {k: canon(v) for k, v in gkw.items()} == {k: canon(v) for k, v in kw.items()}
+
+    @staticmethod
+    def _xa_funcs(funcs, xa):
+        """the functions with the extra arguments folded in (what the model and the oracle evaluate)"""
+        if not xa or xa.get("how") == "none":
+            return funcs
+        return [_eff_func(fn, Fraction(xa.get("mult", "1")), Fraction(xa.get("add", "0"))) for fn in funcs]
+
+    # ---- round 5/6 (R5-D): configuration values the anchored code reads, put in force / restored
+    _conf_dirs = {}
+    _conf_root = None
+
+    def _conf_dir(self, rpc, rmins):
+        """a configuration directory holding the given values (created once per value set)"""
+        import atexit, os, shutil, tempfile
+
+        if C17._conf_root is None or not os.path.isdir(C17._conf_root):
+            C17._conf_root = tempfile.mkdtemp(prefix="verif_c17_conf_")
+            atexit.register(shutil.rmtree, C17._conf_root, ignore_errors=True)
+            C17._conf_dirs = {}
+        key = (rpc, tuple(sorted((rmins or {}).items())))
+        d = C17._conf_dirs.get(key)
+        if d is None:
+            d = os.path.join(C17._conf_root, f"c{len(C17._conf_dirs)}")
+            os.makedirs(d)
+            if rpc is not None:
+                with open(os.path.join(d, "general.yaml"), "w") as f:
+                    f.write(f"grid:\n  remove_projected_centre: {str(bool(rpc)).lower()}\n")
+            if rmins:
+                with open(os.path.join(d, "grids.yaml"), "w") as f:
+                    f.write("radial_minimum:\n  radial_minimum:\n")
+                    for k, v in sorted(rmins.items()):
+                        f.write(f"    {k}: {float(v)!r}\n")
+            C17._conf_dirs[key] = d
+        return d
+
+    class _ConfState:
+        """the configuration as the harness pinned it; `restore` brings it back (also after exceptions)"""
+
+        def __init__(self):
+            from autoconf import conf
+
+            self.conf = conf
+            self.configs = list(conf.instance.configs)
+            self.pushed = False
+            self.rpc = conf.instance["general"]["grid"]["remove_projected_centre"]
+            self.tbl = dict(conf.instance["grids"]["radial_minimum"]["radial_minimum"])
+
+        def restore(self):
+            inst = self.conf.instance
+            if self.pushed:
+                inst.configs = list(self.configs)  # the setter invalidates the merged dictionary
+                self.pushed = False
+            inst["general"]["grid"]["remove_projected_centre"] = self.rpc
+            tbl = inst["grids"]["radial_minimum"]["radial_minimum"]
+            for k in list(tbl.keys()):
+                if k not in self.tbl:
+                    del tbl[k]
+            for k, v in self.tbl.items():
+                tbl[k] = v
+
+    def _conf_set(self, state, rpc=None, rmins=None, via="item"):
+        """put configuration values in force: by item assignment on the live configuration, or by pushing a
+        configuration directory (`conf.instance.push` rebuilds the merged dictionary: every section object
+        handed out before is stale afterwards)"""
+        inst = state.conf.instance
+        if via == "push":
+            inst.configs = list(state.configs)
+            inst.push(new_path=self._conf_dir(rpc, rmins))
+            state.pushed = True
+        else:
+            if rpc is not None:
+                inst["general"]["grid"]["remove_projected_centre"] = bool(rpc)
+            for k, v in (rmins or {}).items():
+                inst["grids"]["radial_minimum"]["radial_minimum"][k] = float(v)
+        if rpc is not None and bool(inst["general"]["grid"]["remove_projected_centre"]) != bool(rpc):
+            raise RuntimeError("harness: remove_projected_centre not in force after _conf_set")
+        for k, v in (rmins or {}).items():
+            if inst["grids"]["radial_minimum"]["radial_minimum"][k] != float(v):
+                raise RuntimeError("harness: radial minimum not in force after _conf_set")
+
+    def _rmin_in_force(self, cname, rmin, via="item", others=None):
+        """context: the radial minimum `rmin` configured for the profile class `cname` (and `others`: further
+        class names with OTHER values, decoys) during one decorated call; the pinned configuration afterwards"""
+        import contextlib
+
+        @contextlib.contextmanager
+        def cm():
+            state = self._ConfState()
+            try:
+                rm = {cname: rmin}
+                for k, v in (others or {}).items():
+                    if k != cname:
+                        rm[k] = float(Fraction(v))
+                self._conf_set(state, rmins=rm, via=via)
+                yield
+            finally:
+                state.restore()
+        return cm()
+
     def _observe(self, aa, case, obj, grid, in_pts=None, in_mask=None):
         """ONE decorated call of `case` on the given (possibly reused) profile object and grid object.
         `in_pts` / `in_mask`: the coordinates / mask attributes the grid is known to hold (history stream: the
@@ -1368,17 +2584,26 @@ class C17(PropertyCheck):
         expectation); default: read from the grid object."""
         kind = case["case"]
         obj.seen = []
+        obj.seen_objs = []
+        obj.got = None
+        obj.ret = case.get("ret")
+        obj.fscrib = bool(case.get("fscrib"))
+        obj.ret_mask = None
+        self._last_result = None
         if hasattr(obj, "n_transforms"):
             obj.n_transforms = 0
         ipts = in_pts if in_pts is not None else self._in_pts(grid)
+        pargs, pkw = self._xa_call(case.get("xa"))
         if kind == "dispatch":
             obj.funcs, obj.is_list, obj.pair = case["funcs"], case["list"], case["kind"] != "array"
+            if case["grid"]["type"] == "oned":
+                obj.ret_mask = np.array([c == "1" for c in case["grid"]["bits"]], dtype=bool)
             if case.get("drop_last"):
                 base_eval = type(obj)._evaluate
-                obj._evaluate = lambda g: base_eval(obj, g)[:-1]
+                obj._evaluate = lambda g, *a, **k: base_eval(obj, g, *a, **k)[:-1]
             meth = {"array": obj.array_from, "grid": obj.grid_from, "vector": obj.vector_from}[case["kind"]]
             try:
-                res = meth(grid)
+                res = meth(grid, *pargs, **pkw)
             except NotImplementedError:
                 return {"err": "constructor_raised"}
             except (aa.exc.ArrayException, aa.exc.GridException, aa.exc.VectorYXException, ValueError,
@@ -1391,34 +2616,61 @@ class C17(PropertyCheck):
             if len(obj.seen) != 1:
                 return {"err": f"function called {len(obj.seen)} times"}
             tname, seen = obj.seen[0]
+            self._last_result = res
             out = [_container_obs(c) for c in res] if isinstance(res, list) else _container_obs(res)
-            return {"seen": [qlist(p) for p in seen.reshape(-1, 2)], "out": out, "_seen_type": tname,
-                    "_in_pts": ipts, "_in_mask": in_mask if in_mask is not None else self._in_mask(grid),
-                    "_same_mask": bool(getattr(res, "mask", None) is getattr(grid, "mask", 0))}
+            o = {"seen": [qlist(p) for p in seen.reshape(-1, 2)], "out": out, "_seen_type": tname,
+                 "_in_pts": ipts, "_in_mask": in_mask if in_mask is not None else self._in_mask(grid),
+                 "_same_mask": bool(getattr(res, "mask", None) is getattr(grid, "mask", 0))}
+            if case.get("xa"):
+                o["_xa_ok"] = self._xa_received(obj.got, pargs, pkw)
+            return o
         if kind == "project":
             pair = "cx" in case["func"]
             obj.funcs, obj.is_list, obj.pair = [case["func"]], False, pair
-            res = obj.projected_from(grid)
+            if case.get("ret") in ("struct", "struct_native", "native_junk"):
+                obj.ret = None  # project_grid documents a plain ndarray result (it reads `result.shape`)
+            res = obj.projected_from(grid, *pargs, **pkw)
+            self._last_result = res
             tname, seen = obj.seen[0]
             v = _np(res)
-            return {"seen": [qlist(p) for p in seen.reshape(-1, 2)],
-                    "values": [qlist(p) for p in v.reshape(-1, 2)] if pair else qlist(v.ravel()),
-                    "_cls": type(res).__name__, "_seen_type": tname, "_in_pts": ipts,
-                    "_scales": qlist(res.pixel_scales) if hasattr(res, "pixel_scales") else None}
+            o = {"seen": [qlist(p) for p in seen.reshape(-1, 2)],
+                 "values": [qlist(p) for p in v.reshape(-1, 2)] if pair else qlist(v.ravel()),
+                 "_cls": type(res).__name__, "_seen_type": tname, "_in_pts": ipts,
+                 "_scales": qlist(res.pixel_scales) if hasattr(res, "pixel_scales") else None}
+            if case.get("xa"):
+                o["_xa_ok"] = self._xa_received(obj.got, pargs, pkw)
+            return o
+        if kind == "projline":
+            # Grid2D.grid_2d_radial_projected_from called directly (the control of the configuration
+            # histories): explicit keyword given / not given
+            kw = {"centre": tuple(float(Fraction(v)) for v in case["centre"]), "angle": float(Fraction(case["angle"]))}
+            if case.get("explicit") is not None:
+                kw["remove_projected_centre"] = bool(case["explicit"])
+            elif case.get("explicit_none"):
+                kw["remove_projected_centre"] = None
+            res = grid.grid_2d_radial_projected_from(**kw)
+            self._last_result = res
+            return {"seen": [qlist(p) for p in _np(res).reshape(-1, 2)], "_cls": type(res).__name__,
+                    "_in_pts": ipts}
         if kind == "relocate":
-            from autoconf import conf
-
-            tbl = conf.instance["grids"]["radial_minimum"]["radial_minimum"]
-            old = tbl["MockGridRadialMinimum"]
-            tbl["MockGridRadialMinimum"] = float(Fraction(case["rmin"]))
-            try:
-                res = obj.relocated_from(grid)
-            finally:
-                tbl["MockGridRadialMinimum"] = old
+            cname = type(obj).__name__
+            rmin = float(Fraction(case["rmin"]))
+            obj.robust_radius = bool(case.get("msc"))
+            with self._rmin_in_force(cname, rmin, case.get("rmin_via", "item"), case.get("rmin_others")):
+                if case.get("pre"):
+                    # the caller says the grid is already in the profile's frame: `transform` hands the CALLER'S
+                    # grid object straight to the radial-minimum decorator
+                    res = obj.relocated_from(grid, *pargs, is_transformed=True)
+                else:
+                    res = obj.relocated_from(grid, *pargs)
+            self._last_result = res
             tname, seen = obj.seen[0]
-            return {"seen": [qlist(p) for p in seen.reshape(-1, 2)], "_seen_type": tname,
-                    "_in_pts": ipts,
-                    "_n_transforms": obj.n_transforms, "_in_type": type(grid).__name__}
+            o = {"seen": [qlist(p) for p in seen.reshape(-1, 2)], "_seen_type": tname,
+                 "_in_pts": ipts,
+                 "_n_transforms": getattr(obj, "n_transforms", 0), "_in_type": type(grid).__name__}
+            if case.get("xa"):
+                o["_xa_ok"] = self._xa_received((obj.got[0], {}), pargs, {})
+            return o
         if kind == "transform":
             obj.flag = None
             meth = {1: obj.level3, 2: obj.level2, 3: obj.level1}[case["depth"]]
@@ -1789,6 +3041,16 @@ class C17(PropertyCheck):
         """the ordinary single-call case a call step amounts to, for FRESH objects in the current state"""
         what = st["what"]
         spec = gstate["spec"]
+        if what == "projline":
+            sub = {"case": "projline", "grid": spec, "centre": pstate["centre"],
+                   "angle": pstate["angle"] if pstate["angle"] is not None else "0", "tag": "hist_step"}
+            if st.get("explicit") is not None:
+                sub["explicit"] = bool(st["explicit"])
+            elif st.get("explicit_none"):
+                sub["explicit_none"] = True
+            if mag:
+                sub["mag"] = mag
+            return sub
         if what in ("array", "grid", "vector"):
             sub = {"case": "dispatch", "kind": what, "grid": spec, "list": st["list"], "funcs": st["funcs"]}
             if st.get("drop_last"):
@@ -1803,6 +3065,9 @@ class C17(PropertyCheck):
             sub = {"case": "transform", "depth": st["depth"], "flag": st["flag"],
                    "explicit_false": st.get("explicit_false", False), "centre": pstate["centre"], "pts": None}
         sub["tag"] = "hist_step"
+        for key in ("ret", "fscrib", "xa", "rmin_via", "rmin_others", "pre"):
+            if st.get(key) is not None:
+                sub[key] = st[key]
         if mag:
             sub["mag"] = mag
         return sub
@@ -1812,6 +3077,15 @@ class C17(PropertyCheck):
         G, P = {}, {}
         out, subs = [], []
         mag = case.get("mag", 0) or 0
+        dead = False
+        cstate = {"state": None, "rpc": None}
+        try:
+            return self._run_history_steps(aa, case, mocks, G, P, out, subs, mag, cstate)
+        finally:
+            if cstate["state"] is not None:
+                cstate["state"].restore()
+
+    def _run_history_steps(self, aa, case, mocks, G, P, out, subs, mag, cstate):
         dead = False
         for st in case["steps"]:
             act = st["act"]
@@ -1825,12 +3099,27 @@ class C17(PropertyCheck):
                 if st.get("readonly") and isinstance(grid, np.ndarray):
                     grid.setflags(write=False)
                 G[st["to"]] = {"obj": grid, "shadow": _slim_np(grid).copy(), "in_mask": self._in_mask(grid),
-                               "spec": spec, "native": bool(spec.get("store_native"))}
+                               "spec": spec, "native": bool(spec.get("store_native")),
+                               "owned": list(self._inputs)}
             elif act == "profile":
-                obj = mocks["radial"](centre=tuple(float(Fraction(v)) for v in st["centre"]),
-                                      angle=None if st["angle"] is None else float(Fraction(st["angle"])))
+                obj = mocks["radial_other" if st.get("cls") == "other" else "radial"](
+                    centre=tuple(float(Fraction(v)) for v in st["centre"]),
+                    angle=None if st["angle"] is None else float(Fraction(st["angle"])))
                 obj.angle = None if st["angle"] is None else float(Fraction(st["angle"]))
                 P[st["to"]] = {"obj": obj, "centre": list(st["centre"]), "angle": st["angle"]}
+            elif act == "conf":
+                # round 5/6 (R5-D): a configuration value the anchored code reads changes BETWEEN calls
+                if cstate["state"] is None:
+                    cstate["state"] = self._ConfState()
+                self._conf_set(cstate["state"], rpc=st.get("rpc"), via=st.get("via", "item"))
+                if st.get("rpc") is not None:
+                    cstate["rpc"] = bool(st["rpc"])
+            elif act == "scribble":
+                # round 5/6 (R5-B): overwrite, in place, every array the API returned or accepted for this slot
+                gs = G.pop(st["g"])
+                _scribble(gs["obj"])
+                _scribble(gs.get("owned"))
+                _scribble(gs.get("returned"))
             elif act == "setattr":
                 ps = P[st["p"]]
                 if "centre" in st:
@@ -1901,6 +3190,8 @@ class C17(PropertyCheck):
             elif act in ("call", "fault"):
                 gs, ps = G[st["g"]], P[st["p"]]
                 sub = self._hist_sub(st, gs, ps, mag)
+                if cstate["rpc"] is not None:
+                    sub["rpc"] = cstate["rpc"]  # the configuration value in force at THIS call
                 sh = gs["shadow"]
                 ipts = qlist(sh) if sh.ndim == 1 else [qlist(p_) for p_ in sh.reshape(-1, 2)]
                 if sub["case"] == "transform":
@@ -1919,11 +3210,15 @@ class C17(PropertyCheck):
                 else:
                     try:
                         o = self._observe(aa, sub, ps["obj"], gs["obj"], in_pts=ipts, in_mask=gs["in_mask"])
+                        gs.setdefault("returned", []).append(self._last_result)
+                        gs["returned"].append(list(ps["obj"].seen_objs))
                     except Skip:
                         raise
                     except Exception as e:  # an undocumented exception ends the history; it is an observation
                         o = {"err": type(e).__name__, "msg": str(e)[:300]}
                         dead = True
+                    if st.get("fscrib"):
+                        G.pop(st["g"], None)  # the user function has edited its argument in place
             else:
                 raise ValueError(act)
             out.append(o), subs.append(sub)
@@ -1941,7 +3236,15 @@ class C17(PropertyCheck):
             grid = self._make_grid(aa, {"type": "irregular", "pts": case["pts"]})
         else:
             grid = self._make_grid(aa, case["grid"])
-        return self._observe(aa, case, obj, grid)
+        if case.get("rpc") is None:
+            return self._observe(aa, case, obj, grid)
+        # round 5/6 (R5-D): the call under the configuration value `general.grid.remove_projected_centre` = rpc
+        state = self._ConfState()
+        try:
+            self._conf_set(state, rpc=bool(case["rpc"]), via=case.get("rpc_via", "item"))
+            return self._observe(aa, case, obj, grid)
+        finally:
+            state.restore()
 
     # ------------------------------------------------------------------ model
     def _grid_req(self, g, with_pts=True, obs=None):
@@ -1978,12 +3281,16 @@ class C17(PropertyCheck):
             if case.get("drop_last"):
                 # the function returns one entry too few: modelled by evaluating on all coordinates but the last
                 raise Skip("bad-length function: compared through the oracle only")
+            funcs = self._xa_funcs(funcs, case.get("xa"))
             return [{"op": "c17.decorate", "kind": case["kind"], "grid": self._grid_req(case["grid"], obs=impl_obs),
                      "funcs": funcs, "list": case["list"],
                      "num": "float" if case["grid"]["type"] == "oned" else "rat"}]
         if kind == "project":
             g = case["grid"]
-            req = {"op": "c17.project", "grid": self._grid_req(g, with_pts=False, obs=impl_obs), "func": case["func"]}
+            req = {"op": "c17.project", "grid": self._grid_req(g, with_pts=False, obs=impl_obs),
+                   "func": self._xa_funcs([case["func"]], case.get("xa"))[0]}
+            if case.get("rpc"):
+                req["remove_centre"] = True
             attrs = case["attrs"]
             req["centre"] = case["centre"] if attrs in ("both", "centre_only") else ["0", "0"]
             # angle attribute absent / None -> 0.0, and then no +90 is applied
@@ -1995,10 +3302,27 @@ class C17(PropertyCheck):
                 req["extent"] = qlist([ox - w * sx / 2, ox + w * sx / 2, oy - h * sy / 2, oy + h * sy / 2])
                 req["scales"] = g["scales"]
             return [req]
+        if kind == "projline":
+            g = case["grid"]
+            h, w = g["mask"]["h"], g["mask"]["w"]
+            sy, sx = (Fraction(v) for v in g["scales"])
+            oy, ox = (Fraction(v) for v in g["origin"])
+            req = {"op": "c17.projline", "centre": case["centre"], "angle": case["angle"], "scales": g["scales"],
+                   "extent": qlist([ox - w * sx / 2, ox + w * sx / 2, oy - h * sy / 2, oy + h * sy / 2]),
+                   "config": bool(case.get("rpc"))}
+            if case.get("explicit") is not None:
+                req["explicit"] = bool(case["explicit"])
+            return [req]
         if kind == "relocate":
             pts = self._grid_pts(case["grid"], impl_obs)
-            return [{"op": "c17.relocate", "pts": [[q(a), q(b)] for a, b in pts], "centre": case["centre"],
-                     "rmin": case["rmin"]}]
+            if case.get("msc"):
+                # a world beyond 2^+-500: the model (whose radius function squares) is asked for the world scaled
+                # back by the exact power of two; its answer scales back exactly (`_compare_one`)
+                f = Fraction(2) ** (-case["msc"])
+                return [{"op": "c17.relocate", "pts": [[q(a * f), q(b * f)] for a, b in pts],
+                         "centre": [q(Fraction(v) * f) for v in case["centre"]], "rmin": q(Fraction(case["rmin"]) * f)}]
+            return [{"op": "c17.relocate", "pts": [[q(a), q(b)] for a, b in pts],
+                     "centre": ["0", "0"] if case.get("pre") else case["centre"], "rmin": case["rmin"]}]
         if kind == "transform":
             return [{"op": "c17.transform", "pts": case["pts"], "centre": case["centre"],
                      "depth": case["depth"], "flag": case["flag"]}]
@@ -2035,7 +3359,9 @@ class C17(PropertyCheck):
         if k != 0 and isinstance(a, dict) and isinstance(b, dict) and "err" not in a and "err" not in b:
             # decades stream: compare relative to the world's magnitude 2^k, not to 1
             f = Fraction(2) ** (-k)
-            a, b = self._rescale(a, f), self._rescale(b, f)
+            a = self._rescale(a, f)
+            if not case.get("msc"):  # (with "msc" the model was asked for the world already scaled back)
+                b = self._rescale(b, f)
         return cmp.diff(a, b)
 
     def compare(self, case, impl_obs, model_obs, cmp):
@@ -2067,6 +3393,23 @@ class C17(PropertyCheck):
     @staticmethod
     def _floor(case):
         return 2.0 ** (case.get("mag", 0) or 0)
+
+    @staticmethod
+    def _line_2d(g, cy, cx, a):
+        """the radially projected line of a uniform grid spec about (cy, cx), rotated by the angle a (radians):
+        centre + k*s*(-sin a, cos a), k = 0 .. int(d/s); None when the quotient is negative"""
+        h, w = g["mask"]["h"], g["mask"]["w"]
+        sy, sx = (Fraction(v) for v in g["scales"])
+        oy, ox = (Fraction(v) for v in g["origin"])
+        fcy, fcx = (Fraction(cy), Fraction(cx))
+        d = [ox + w * sx / 2 - fcx, oy + h * sy / 2 - fcy, fcx - (ox - w * sx / 2), fcy - (oy - h * sy / 2)]
+        dist = max(d)
+        ps = sy if dist in (d[1], d[3]) else sx
+        quo = dist / ps
+        if quo < 0:
+            return None
+        n = int(quo) + 1
+        return [(cy - k * float(ps) * math.sin(a), cx + k * float(ps) * math.cos(a)) for k in range(n)]
 
     def _check_container(self, c, case, fn, pts, exact, in_mask=None):
         S = self._floor(case)
@@ -2158,6 +3501,10 @@ class C17(PropertyCheck):
                 return f"edit mask of {st['from']} in place; {st['to']}=from_mask(that mask)"
             if act in ("grid", "profile"):
                 return f"new {st['to']}"
+            if act == "conf":
+                return f"configuration remove_projected_centre={st.get('rpc')} by {st.get('via', 'item')}"
+            if act == "scribble":
+                return f"overwrite every array of / returned for {st['g']} in place"
             return f"{act} {st.get('g') or st.get('p')}"
         return " ; ".join(one(st) for st in case["steps"][:k + 1])
 
@@ -2204,20 +3551,41 @@ class C17(PropertyCheck):
                 if not self._pts_close(obs["seen"], pts, 0.0):
                     return False, "function did not receive the input grid's coordinates unchanged"
             out = obs["out"]
+            if case.get("xa") and not obs.get("_xa_ok"):
+                return False, "the user function did not receive its own extra arguments as they were given"
+            funcs = self._xa_funcs(case["funcs"], case.get("xa"))
             if case["list"]:
-                if not isinstance(out, list) or len(out) != len(case["funcs"]):
+                if not isinstance(out, list) or len(out) != len(funcs):
                     return False, "list result not wrapped element by element"
-                for c, fn in zip(out, case["funcs"]):
+                for c, fn in zip(out, funcs):
                     d = self._check_container(c, case, fn, pts, exact, obs.get("_in_mask"))
                     if d:
                         return False, "list element: " + d
                 return True, ""
             if isinstance(out, list):
                 return False, "single result wrapped as a list"
-            d = self._check_container(out, case, case["funcs"][0], pts, exact, obs.get("_in_mask"))
+            d = self._check_container(out, case, funcs[0], pts, exact, obs.get("_in_mask"))
             return (d is None), (d or "")
         if isinstance(obs, dict) and "err" in obs:
             return False, f"implementation raised {obs}"
+        if kind == "projline":
+            # Grid2D.grid_2d_radial_projected_from called directly: the explicit keyword decides, else the
+            # configuration value in force at call time
+            g = case["grid"]
+            cy, cx = (float(Fraction(v)) for v in case["centre"])
+            a = math.radians(float(Fraction(case["angle"])))
+            exp = self._line_2d(g, cy, cx, a)
+            if exp is None:
+                raise Skip("centre outside the extent on every side")
+            drop = bool(case["explicit"]) if case.get("explicit") is not None else bool(case.get("rpc"))
+            if drop:
+                exp = exp[1:]
+            if obs["_cls"] != "Grid2DIrregular":
+                return False, f"projected line is a {obs['_cls']}"
+            if not self._pts_close(obs["seen"], exp, 1e-9, self._floor(case)):
+                return False, ("the projected line does not follow the remove_projected_centre value in force "
+                               f"(explicit={case.get('explicit')}, configuration={bool(case.get('rpc'))})")
+            return True, ""
         if kind == "project":
             g = case["grid"]
             attrs = case["attrs"]
@@ -2225,6 +3593,8 @@ class C17(PropertyCheck):
             ang = float(Fraction(case["angle"])) + 90.0 if attrs == "both" else 0.0
             a = math.radians(ang)
             pair = "cx" in case["func"]
+            if case.get("xa") and not obs.get("_xa_ok"):
+                return False, "the user function did not receive its own extra arguments as they were given"
             if g["type"] == "irregular":
                 exp = [(float(p[0]), float(p[1])) for p in self._grid_pts(g, obs)]
                 want_cls = "Grid2DIrregular" if pair else "ArrayIrregular"
@@ -2245,13 +3615,16 @@ class C17(PropertyCheck):
                 if n is None:
                     raise Skip("centre outside the extent on every side")
                 exp = [(cy - k * float(ps) * math.sin(a), cx + k * float(ps) * math.cos(a)) for k in range(n)]
+                if case.get("rpc"):
+                    exp = exp[1:]  # configuration value remove_projected_centre in force: without the centre
                 want_cls = "Array1D"
             if obs["_cls"] != want_cls:
                 return False, f"project_grid returned {obs['_cls']}, expected {want_cls}"
             S = self._floor(case)
             if not self._pts_close(obs["seen"], exp, 1e-9, S):
-                return False, "function did not receive the radially projected line (centre + k*s rotated by angle)"
-            vals = _eval_func(case["func"], exp, float, pair)
+                return False, ("function did not receive the radially projected line (centre + k*s rotated by angle)"
+                               + (" without its centre point (remove_projected_centre in force)" if case.get("rpc") else ""))
+            vals = _eval_func(self._xa_funcs([case["func"]], case.get("xa"))[0], exp, float, pair)
             got = obs["values"]
             ok = len(got) == len(vals) and all(
                 (self._close(a[0], b[0], 1e-8, S) and self._close(a[1], b[1], 1e-8, S)) if pair
@@ -2259,14 +3632,19 @@ class C17(PropertyCheck):
                 for a, b in zip(got, vals))
             return ok, "" if ok else "entry k of the result is not f at projected point k"
         if kind == "relocate":
-            cy, cx = (float(Fraction(v)) for v in case["centre"])
-            rmin = float(Fraction(case["rmin"]))
-            pts = [(float(a) - cy, float(b) - cx) for a, b in self._grid_pts(case["grid"], obs)]
-            seen = [(float(Fraction(a)), float(Fraction(b))) for a, b in obs["seen"]]
+            # (worlds beyond 2^+-500: everything scaled back by the exact power of two first, so that the products
+            # formed below stay inside the double range; IEEE arithmetic commutes with such a scaling)
+            nf = Fraction(2) ** (-case["msc"]) if case.get("msc") else 1
+            cy, cx = (float(Fraction(v) * nf) for v in (["0", "0"] if case.get("pre") else case["centre"]))
+            rmin = float(Fraction(case["rmin"]) * nf)
+            pts = [(float(a * nf) - cy, float(b * nf) - cx) for a, b in self._grid_pts(case["grid"], obs)]
+            seen = [(float(Fraction(a) * nf), float(Fraction(b) * nf)) for a, b in obs["seen"]]
             if len(seen) != len(pts):
                 return False, "number of coordinates changed"
-            if obs["_n_transforms"] != 1:
+            if obs["_n_transforms"] != (0 if case.get("pre") else 1):
                 return False, f"grid transformed {obs['_n_transforms']} times"
+            if case.get("xa") and not obs.get("_xa_ok"):
+                return False, "the user function did not receive its own extra positional arguments"
             want_t = {"Grid2D": "Grid2D", "Grid2DIrregular": "Grid2DIrregular", "ndarray": "ndarray"}[obs["_in_type"]]
             if obs["_seen_type"] != want_t:
                 return False, f"relocated grid is a {obs['_seen_type']}, input was {want_t}"
@@ -2313,7 +3691,7 @@ class C17(PropertyCheck):
                 return len(g["pts"]) >= 2
             return g["bits"].count("0") >= 2
         if kind == "relocate":
-            cy, cx = (Fraction(v) for v in case["centre"])
+            cy, cx = (Fraction(v) for v in (["0", "0"] if case.get("pre") else case["centre"]))
             rmin = Fraction(case["rmin"])
             r2 = [(a - cy) ** 2 + (b - cx) ** 2 for a, b in self._grid_pts(case["grid"])]
             return any(v < rmin * rmin for v in r2) and any(v > rmin * rmin for v in r2)
@@ -2328,6 +3706,12 @@ class C17(PropertyCheck):
             return
         if kind == "history":
             steps = case["steps"]
+            if any(st["act"] in ("scribble", "conf") or st.get("fscrib") or st.get("rmin_via") == "push" for st in steps):
+                # ownership / configuration histories (round 5/6) look for PROCESS-WIDE state (a memo handing out its
+                # own array, a configuration value cached at first use).  Once such state is poisoned, every shorter
+                # history fails in this process too, but would not fail when replayed in a fresh one: the whole
+                # history (observe -> overwrite / reconfigure -> rebuild -> observe) is the replay.
+                return
             for i in range(len(steps) - 1, -1, -1):
                 cand = steps[:i] + steps[i + 1:]
                 if self._hist_ok(cand):
@@ -2372,7 +3756,9 @@ class C17(PropertyCheck):
         return {
             "dispatch": ["C17.dispatch_uniform", "C17.dispatch_irregular", "C17.dispatch_oned",
                          "C17.list_wrapped_elementwise", "C17.pointwise_entry_k"],
-            "project": ["C17.projected_line_1d", "C17.projected_line_1d_plain", "C17.projected_line_2d"],
+            "project": ["C17.projected_line_1d", "C17.projected_line_1d_plain", "C17.projected_line_2d",
+                        "C17.projected_line_follows_config"],
+            "projline": ["C17.projected_line_2d", "C17.explicit_flag_overrides_config"],
             "relocate": ["C17.relocate_inside", "C17.relocate_outside_unchanged", "C17.relocate_centre",
                          "C17.relocate_entry_k"],
             "transform": ["C17.transform_once"],
